@@ -12,13 +12,96 @@ import LitexProofs.Periph.I2cPad
 import LitexProofs.Periph.UartSys
 import LitexProofs.Periph.SpiSeq
 import LitexProofs.Periph.GlueMisc
+import LitexProofs.Periph.SpiGen
+import LitexModel.Periph.Bitbang
+import LitexProofs.Periph.Tolerance2
+import LitexProofs.Periph.Exact
+import LitexProofs.Periph.I2cSeq
+import LitexProofs.Periph.WdExact
+import LitexProofs.Periph.RxEnd
+import LitexProofs.Periph.Glue2
+import LitexProofs.Periph.SpiLink
+import LitexModel.Periph.Link
+import LitexProofs.Periph.Bone
 /-
   C19 — Serial peripherals and timers produce exact waveforms and always finish.
 
-  Models: `LitexModel/Periph/*` (Timer, Watchdog, WaitTimer, PWM, timeline, RS232 phase accumulator / TX / RX,
-  SPIMaster, SPISlave, I2CMasterMachine), compared with the real cores on every run.  Every theorem quantifies over
-  all input histories (`List` of per-cycle inputs, or a function `Nat → input` for the cycles of a frame), all data
-  values and all parameters (tuning word, divider, load values, widths) subject to the stated side conditions.
+  Models: `LitexModel/Periph/*`, compared with the real cores on every run (`harness/props/c19.py`, instances and
+  pin-level monitors in `harness/c19lib.py`).  Every theorem quantifies over all input histories (`List` of per-cycle
+  inputs, or a function `Nat → input` for the cycles of a frame), all data values and all parameters (tuning word,
+  divider, load values, widths) subject to the stated side conditions.
+
+  INVENTORY of the anchor files (class/function — Lean model — theorems here — how tied; A = exhaustive co-exploration
+  of implementation × model, B = seeded lock-step co-simulation, M = independent pin-level monitor):
+
+  litex/soc/cores/uart.py
+    UARTPads, UARTInterface, RS232PHYInterface   declarations only (records / endpoints), nothing to model
+    RS232ClkPhaseAccum      accum/accNext        phase_accum                                    A 4 tw × tx/rx, B 4 extreme tw, M
+    RS232PHYTX              uartTx/txNext        uart_tx_frame, uart_tx_finishes, uart_tx_idle_high   A 4 tw, B 9 inst, M (frame decoder)
+    RS232PHYRX              uartRx/rxNext        uart_rx_sample_points, uart_rx_frame, uart_rx_recovers_partial,
+                                                 uart_rx_tolerates_2pct / _2pct_10 / _general / _general_idle,
+                                                 uart_loopback_partial, uart_loopback_aligned_partial,
+                                                 uart_rx_pad_recovers_partial, uart_rx_end_to_end, uart_rx_end_to_end_any   A 4 tw, B 12 inst (±2 %, noise), M
+    RS232PHY                (tuning word = int(baud/clk·2^32) is the models' parameter `tw`; dynamic baud = CSR storage)
+                                                 all `tw`-general theorems                      B phy=(clk, baud) incl. dynamic, M (baud monitor)
+    RS232PHYMultiplexer     phyMux               phy_mux_routes                                 A n = 2, 3 complete, M
+    UARTMultiplexer         uartMux              uart_mux_routes                                A n = 2, 3 complete, M
+    RS232PHYModel           phyModel             phy_model_wires                                A complete, M
+    UARTCrossover           crossover machine (two uartTop cross-wired; xover TX "FIFO" of depth 1 is a PipeValid buffer)
+                                                 uart_crossover_no_loss (both directions)       A bounded, B, M (in-order scoreboard)
+    UART.add_auto_tx_flush  uartFlush            uart_auto_flush_transparent, uart_auto_flush_drop_rate, uart_auto_flush_drains,
+                                                 uart_auto_flush_unblocks
+                                                 (the model follows the code, including the duplicated character when the PHY
+                                                 recovers in a cycle with flush_count ≠ 0 — see the example there)   A complete (timeout 2), B, M
+    _get_uart_fifo, UARTPHY constructor helpers  (sync case = C03's buffered FIFO model; async case is C05's)   B via UartSysInst / SoC
+    UART                    uartTopM, uartSysM   uart_top_no_loss_in_order, uart_sys_tx_once    A 2 inst, B 5 inst incl. SoCMini's UART, M
+    Stream2Wishbone, UARTBone, UARTWishboneBridge
+                            bone (FSM + WaitTimer)   bone_write_burst, bone_write_access, bone_read_burst, bone_read_access,
+                                                 bone_read_bytes, bone_bad_cmd, bone_no_timeout, bone_never_stuck
+                                                 (UARTBone / UARTWishboneBridge only add the PHY and, for cd ≠ sys, C05's CDC)
+                                                                                                A 3 inst (bounded), B 3 inst (dw 16/32, aw 16/32/64), M
+                                                                                                (widths 8 cannot be elaborated: Signal(int(log2(1))))
+  litex/soc/cores/spi/spi_master.py
+    SPIMaster               spiMaster/spiNext, spiNNext (cs vector)
+                                                 spi_master_start, spi_master_xfer, spi_master_pulse_count, spi_master_idle_inv,
+                                                 spi_master_cs_lines, spi_master_any_options, spi_master_terminates_exactly,
+                                                 spi_master_loopback, spi_master_bad_length_stuck     A 19 inst (dw 2–5, div 2–5, cs/loopback/length 0..3), B 25 inst
+                                                                                                (dw 5–64, div 2…65535, ncs ≤ 16), M (SPI decoder)
+    SPIMaster.add_csr / add_clk_divider          CSR fields wired 1:1 to the control signals (same model)     A/B instances `csr=True`, `default_div`
+  litex/soc/cores/spi/spi_slave.py
+    SPISlave                spiSlave/slvNext     spi_slave_xfer, spi_slave_pads, shiftIn_word, spi_slave_capture,
+                                                 spi_slave_miso_sequence                        A dw 2 (bounded: 8-bit length counter; dw 1 complete in the
+                                                                                                thorough tier), B 6 inst, M
+    SPIMaster ↔ SPISlave    spiLink = linkStep (the two cores pad to pad)
+                                                 spi_link_mosi, spi_link_slave_idle, spi_link_miso_partial (div ≥ 8; witness at 7),
+                                                 spi_link_served                                A dw 2 (bounded), B 4 inst, M (end-to-end scoreboard)
+  litex/soc/cores/i2c.py
+    I2CClockGen             `cnt` part of i2cNext                i2c_step_timing, i2c_command_exact_cycles       (inside the machine instances)
+    I2CMasterMachine        i2cMachine/i2cNext/i2cFsmStep        i2c_legal, i2c_command_ticks, i2c_returns_idle, i2c_write_sequence,
+                                                 i2c_read_sequence, i2c_start_stop_sequences, i2c_step_timing,
+                                                 i2c_command_exact_cycles                       A 2 inst (all command letters), B 8 inst (load 0…2^20−1), M
+    I2CMaster               i2cMaster/i2cmNext   i2c_pad_legal, i2c_master_registers, i2c_pad_follows_machine     A 1 inst (bounded), B 6 inst (overlap, stretching), M (pad monitor)
+  litex/soc/cores/timer.py
+    Timer                   timer/timerNext      timer_oneshot, timer_counts, timer_periodic, timer_latch, timer_full_waveform,
+                                                 timer_disabled_holds_load, timer_update_latch_any     A 3-bit complete, B 8/32 bit + SoCMini's timer, M
+    Timer.add_uptime        uptimeM              timer_uptime                                   A (bounded: 64-bit counter), B, M
+  litex/soc/cores/watchdog.py
+    Watchdog                watchdog/wdNext      watchdog_counts, watchdog_feed, watchdog_feed_clears, watchdog_paused,
+                                                 watchdog_reset_delay, watchdog_no_spurious_reset, watchdog_timeout_exact      A 5 inst (delay 0–3, options), B 7 inst incl. SoC, M
+  litex/gen/genlib/misc.py
+    WaitTimer               WaitTimer (shared)   waittimer_done_iff                             A t ∈ {0,1,2,5,2.7}, B t ≤ 70000, M
+    timeline                timelineM            timeline_sequence                              A 4 event sets, B 5, M
+    displacer, chooser      displacer, chooser   displacer_places, chooser_displacer            A complete input sets (6 parameterisations), M
+    split                   split                split_concat                                   A complete, M
+    BitSlip                 bitSlip              bitslip_shift                                  A dw 2, 3 complete, B dw 5, 8, 16, M
+  litex/soc/cores/pwm.py
+    PWM                     pwm/pwmNext          pwm_wave, pwm_duty, pwm_period_zero_one, pwm_width_corners, pwm_disable_reset,
+                                                 pwm_exact_waveform, pwm_out_of_range           A values 0–4 complete (plain + CSR), B 32-bit, M
+    PWM.add_*csr            CSR storages wired 1:1 (same model)                                 A/B `csr=True`
+    MultiChannelPWM         mcPwmNext            multichannel_pwm                               A 2 channels, B 3/5 channels, M
+  litex/soc/cores/bitbang.py (not an anchor; added on request)
+    I2CMaster, I2CMasterSim, SPIMaster   bbI2c, bbI2cSim, bbSpi  bitbang_i2c_wiring, bitbang_i2c_sim_wiring, bitbang_spi_wiring   A complete (stateless), M
+    add_init, collect_i2c_info           Python-level bookkeeping for the exporter (C14's area), not modelled
 -/
 namespace Litex.C19
 open Litex Litex.Periph
@@ -888,5 +971,1514 @@ theorem multichannel_pwm (s : McPwmSt) (period : Nat) (chans : List (Bool × Nat
         { enable := (chans.headD (false, 0)).1, reset := false, width := 0, period := period }).counter ∧
     (mcPwmNext s period chans).pwm[k]? = some (chans[k].1 && decide (s.counter < chans[k].2)) :=
   ⟨mcpwm_counter s period chans false, mcpwm_channel s period chans k hk⟩
+
+/-! ## SPI master: every option letter (`cs`, `cs_mode`, `loopback`), exact termination, loopback word -/
+
+/-- **spi_master_any_options.**  The complete transfer for every data width, length `1 ≤ L ≤ data_width`, divider
+    `2 ≤ div < 2^16`, divider phase, mode, and **every** per-cycle value of `start`, `mosi`, `cs`, `cs_mode`, `loopback`,
+    `pads.miso` (only the divider and the length are held).  Cycle 0 is the IDLE cycle with `start = 1`;
+    `T = 1 + (div − cnt₁)` is the first RUN cycle, `E = T + L·div + div/2` the cycle in which `done` returns:
+      * before `T`: clock low, `done = 0`, no irq;  RUN pulse `i`, position `k`: clock high iff `k ≥ div/2`, MOSI = bit
+        `data_width−1−i` / `L−1−i` of the word latched in cycle 0 (later writes to `mosi` do not matter), `done = 0`;
+      * `div/2` STOP cycles, irq in the last one; in `E`: `done`, and bit `k < L` of `miso` is what was sampled at the
+        rise strobe of pulse `L−1−k`: `pads.miso`, or the MOSI pad if `loopback` is set in that cycle;
+      * the chip-select register follows `cs`/`cs_mode` of the previous cycle: outside the transfer
+        `cs_n = ¬(cs ∧ cs_mode)` (manual mode), from the last START cycle to the last STOP cycle `cs_n = ¬cs`. -/
+theorem spi_master_any_options (c : SpiCfg) (div L : Nat) (hdiv : 2 ≤ div) (hd16 : div < 65536) (hL : 1 ≤ L)
+    (hLw : L ≤ c.dw) (g : Nat → SpiIn) (hg : ∀ t, (g t).div = div ∧ (g t).length = L) (s : SpiSt) (hs : IdleOk div s)
+    (hst : (g 0).start = true) :
+    let st := fun t => runFn (spiMaster c) s g t
+    let o := fun t => (spiMaster c).out (st t) (g t)
+    let T := 1 + (div - (st 1).cnt)
+    let E := T + (L * div + div / 2)
+    (st 1).cnt = (s.cnt + 1) % div ∧
+    (∀ t, t < T → (o t).clk = false ∧ (o t).done = false ∧ (o t).irq = false) ∧
+    (∀ i, i < L → ∀ k, k < div →
+        (o (T + (i * div + k))).clk = decide (div / 2 ≤ k) ∧
+        (o (T + (i * div + k))).mosi = (g 0).mosi.testBit ((if c.aligned then L - 1 else c.dw - 1) - i) ∧
+        (o (T + (i * div + k))).done = false ∧ (o (T + (i * div + k))).irq = false) ∧
+    (∀ k, k < div / 2 →
+        (o (T + (L * div + k))).clk = false ∧ (o (T + (L * div + k))).done = false ∧
+        (o (T + (L * div + k))).irq = decide (k + 1 = div / 2)) ∧
+    ((o E).done = !(g E).start ∧ (o E).clk = false ∧ (o E).irq = false ∧
+      ∀ k, k < L → (o E).miso.testBit k =
+        spiSampled (st (T + ((L - 1 - k) * div + (div / 2 - 1)))) (g (T + ((L - 1 - k) * div + (div / 2 - 1))))) ∧
+    (∀ t, t + 1 < T → (o (t + 1)).csN = !((g t).cs && (g t).csMode)) ∧
+    (∀ t, T ≤ t + 1 → t < E → (o (t + 1)).csN = !(g t).cs) ∧
+    (o (E + 1)).csN = !((g E).cs && (g E).csMode) := by
+  intro st o T E
+  have h := spi_transfer_general c div L hdiv hd16 hL hLw g (fun t => ⟨(hg t).1, (hg t).2⟩) s hs hst
+  simp only at h
+  obtain ⟨_, h1, h2, h3, h4, h5, h6, h7⟩ := h
+  exact ⟨spi_accept_cnt c div hdiv hd16 s (g 0) (hg 0).1 hs, h1, h2, h3, h4, h5, h6, h7⟩
+
+/-- **spi_master_terminates_exactly.**  `done` is low from the start cycle on and returns exactly in cycle
+    `E = 1 + (div − (cnt+1) mod div) + L·div + div/2` (`cnt` = divider counter in the start cycle), not earlier — for
+    every length, divider, divider phase, mode and option letter. -/
+theorem spi_master_terminates_exactly (c : SpiCfg) (div L : Nat) (hdiv : 2 ≤ div) (hd16 : div < 65536) (hL : 1 ≤ L)
+    (hLw : L ≤ c.dw) (g : Nat → SpiIn) (hg : ∀ t, (g t).div = div ∧ (g t).length = L) (s : SpiSt) (hs : IdleOk div s)
+    (hst : (g 0).start = true) :
+    let o := fun t => (spiMaster c).out (runFn (spiMaster c) s g t) (g t)
+    let E := 1 + (div - (s.cnt + 1) % div) + (L * div + div / 2)
+    (∀ t, t < E → (o t).done = false) ∧ (o E).done = !(g E).start :=
+  spi_done_exact c div L hdiv hd16 hL hLw g (fun t => ⟨(hg t).1, (hg t).2⟩) s hs hst
+
+/-- **spi_master_loopback.**  With `loopback = 1` the word read back is the bits sent: bit `k < L` of `miso` is bit `k`
+    of the word (aligned) / bit `data_width − L + k` (raw). -/
+theorem spi_master_loopback (c : SpiCfg) (div L : Nat) (hdiv : 2 ≤ div) (hd16 : div < 65536) (hL : 1 ≤ L)
+    (hLw : L ≤ c.dw) (g : Nat → SpiIn) (hg : ∀ t, (g t).div = div ∧ (g t).length = L) (s : SpiSt) (hs : IdleOk div s)
+    (hst : (g 0).start = true) (hlb : ∀ t, (g t).loopback = true) :
+    let o := fun t => (spiMaster c).out (runFn (spiMaster c) s g t) (g t)
+    let E := 1 + (div - (s.cnt + 1) % div) + (L * div + div / 2)
+    ∀ k, k < L → (o E).miso.testBit k = (g 0).mosi.testBit (if c.aligned then k else c.dw - L + k) :=
+  spi_loopback_word c div L hdiv hd16 hL hLw g (fun t => ⟨(hg t).1, (hg t).2⟩) s hs hst hlb
+
+/-- Non-vacuity (reset state, data_width 4 aligned, divider 3, 3 bits of 0b0101, loopback, chip select off):
+    `E = 1 + 2 + 10 = 13`, `done` returns exactly there with `miso = 0b101`, and `cs_n` stays high throughout. -/
+example :
+    let g : Nat → SpiIn := fun t => ⟨t == 0, 3, 0b0101, false, false, true, 3, false⟩
+    let st := fun t => runFn (spiMaster ⟨4, true⟩) (spiMaster ⟨4, true⟩).init g t
+    ((List.range 13).all fun t => !((spiMaster ⟨4, true⟩).out (st t) (g t)).done) = true ∧
+    ((spiMaster ⟨4, true⟩).out (st 13) (g 13)).done = true ∧ ((spiMaster ⟨4, true⟩).out (st 13) (g 13)).miso = 0b101 ∧
+    ((List.range 14).all fun t => (st (t + 1)).csN) = true := by decide
+
+/-! ## bitbang.py: software-driven I2C and SPI masters (pad wiring) -/
+
+/-- **bitbang_i2c_wiring.**  Open drain: each line is the AND of what the core and the rest of the bus do; the core
+    pulls SCL low exactly when `w.scl = 0` and SDA low exactly when `w.oe ∧ ¬w.sda` — it never drives a line high — and
+    `r.sda` reads the SDA line.  So with the bus otherwise released the pads show exactly the bits software writes, in
+    the same cycle.  (`w.oe` does not gate SCL, unlike what the field description says: `w.scl = 0` pulls SCL low also
+    with `w.oe = 0`.) -/
+theorem bitbang_i2c_wiring (i : BbI2cIn) :
+    (bbI2c i).padScl = (i.scl && i.extScl) ∧ (bbI2c i).padSda = ((!i.oe || i.sda) && i.extSda) ∧
+    (bbI2c i).rSda = (bbI2c i).padSda ∧
+    (i.extScl = false → (bbI2c i).padScl = false) ∧ (i.extSda = false → (bbI2c i).padSda = false) := by
+  obtain ⟨scl, oe, sda, es, ed⟩ := i
+  cases scl <;> cases oe <;> cases sda <;> cases es <;> cases ed <;> simp [bbI2c]
+
+example : bbI2c ⟨false, false, true, true, true⟩ = ⟨false, true, true⟩ ∧
+          bbI2c ⟨true, true, false, true, true⟩ = ⟨true, false, false⟩ := by decide
+
+/-- `I2CMasterSim`: SCL is the register bit; with `oe` SDA-out and the read-back are the register bit, without it
+    SDA-out idles high and the read-back is the input pad. -/
+theorem bitbang_i2c_sim_wiring (scl oe sda sdaIn : Bool) :
+    (bbI2cSim scl oe sda sdaIn).padScl = scl ∧
+    (bbI2cSim scl oe sda sdaIn).sdaOut = (!oe || sda) ∧
+    (bbI2cSim scl oe sda sdaIn).rSda = ((oe && sda) || (!oe && sdaIn)) := by
+  cases scl <;> cases oe <;> cases sda <;> cases sdaIn <;> simp [bbI2cSim]
+
+/-- **bitbang_spi_wiring.**  `pads.clk = w.clk`; chip-select line `j < len(pads.cs_n) ≤ 4` is the complement of
+    `w.cs[j]`; the MOSI pad carries `w.mosi` when `w.oe` is set and is left to the line otherwise (3-wire), `r.mosi`
+    reads the pad back and `r.miso` reads `pads.miso`. -/
+theorem bitbang_spi_wiring (ncs : Nat) (hn : ncs ≤ 4) (i : BbSpiIn) (j : Nat) (hj : j < ncs) :
+    (bbSpi ncs i).clk = i.clk ∧ (bbSpi ncs i).csN.testBit j = !i.cs.testBit j ∧
+    (bbSpi ncs i).mosi = (if i.oe then i.mosi else i.extMosi) ∧ (bbSpi ncs i).rMosi = (bbSpi ncs i).mosi ∧
+    (bbSpi ncs i).rMiso = i.miso := by
+  refine ⟨rfl, ?_, rfl, rfl, rfl⟩
+  show (csnOf ncs (i.cs % 16) true).testBit j = _
+  rw [csnOf_line ncs (i.cs % 16) j true hj]
+  have : (i.cs % 2 ^ 4).testBit j = i.cs.testBit j := by
+    rw [Nat.testBit_mod_two_pow]; simp; omega
+  simp [show (16 : Nat) = 2 ^ 4 from rfl, this]
+
+example : (bbSpi 3 ⟨true, true, false, 0b0101, false, true⟩) = ⟨true, 0b010, false, true, false⟩ := by decide
+
+/-! ## UART: rate tolerance with the mismatch as a parameter; exact loopback alignment
+    (needs `import LitexProofs.Periph.Tolerance2`) -/
+
+/-- **uart_rx_tolerates_general.**  As `uart_rx_tolerates_2pct`, with the mismatch as a parameter: bit period `P/Q`
+    cycles within ±`m` per mille of the receiver's `2^32/tw`
+    (`(1000 − m)·2^32·Q ≤ 1000·P·tw ≤ (1000 + m)·2^32·Q`, written without subtraction), any sub-cycle phase `ε/Q`.
+    Stated tolerance bound: `6000·tw + 20·m·2^32 ≤ 1000·2^32`, i.e. with `R = 2^32/tw` cycles per bit
+    `3 + 10·(m/1000)·R ≤ R/2` — three cycles (registered line, ceiling of the sample cycle, phase) plus the mismatch
+    accumulated over ten bit periods fit into half a bit period.  `m = 0`: `R ≥ 6`; `m = 20`: `R ≥ 10`; `m = 40`:
+    `R ≥ 30`; `m ≥ 50`: no `tw`.  Under this bound every one of the ten sample points lies inside its own bit
+    (`rx_tolerance_arith_general`), so the byte is recovered whatever follows the stop bit. -/
+theorem uart_rx_tolerates_general (tw P Q ε m : Nat) (h0 : 0 < tw)
+    (hbound : 6000 * tw + 20 * m * M32 ≤ 1000 * M32) (hε : ε < Q)
+    (hlo : 1000 * (M32 * Q) ≤ 1000 * (P * tw) + m * (M32 * Q))
+    (hhi : 1000 * (P * tw) ≤ 1000 * (M32 * Q) + m * (M32 * Q))
+    (d : Nat) (hd : d < 256) (ln : Nat → Bool) (hln : ∀ k, ln k = frameBit d (((k + 1) * Q + ε) / P))
+    (s0 : RxSt) (hrun : s0.run = true) (hc : s0.count = 0) (hacc : s0.acc = ⟨HALF32, false⟩) (hrx : s0.rx = ln 0)
+    (hr0 : s0.r0 = ln 1) (hdat : s0.data < 256) :
+    let R := rxSampleCycle tw 10
+    let o := (uartRx tw).out (runFn (uartRx tw) s0 (fun k => ln (k + 2)) R) (ln (R + 2))
+    o.valid = true ∧ o.data = d := by
+  have htw : tw < M32 := by unfold M32 at *; omega
+  apply uart_rx_recovers_partial tw h0 htw ln s0 hrun hc hacc hrx hr0 hdat d hd
+  intro b hb
+  have h := rx_tolerance_arith_general tw P Q ε b m h0 hbound hε hlo hhi hb
+  rw [hln]
+  congr 1
+  apply Nat.div_eq_of_lt_le
+  · exact h.1
+  · exact h.2
+
+/-- **uart_rx_tolerates_general_idle.**  The line of the statement is high after the stop bit, so sample point 10
+    only has to be past the start of the stop bit and the mismatch accumulates over nine bit periods only:
+    `6000·tw + 18·m·2^32 ≤ 1000·2^32`  (`3 + 9·(m/1000)·R ≤ R/2`; `m = 20`: `R ≥ 9.375`; `m = 50`: `R ≥ 60`;
+    `m ≥ 56`: no `tw`).  Same conclusion. -/
+theorem uart_rx_tolerates_general_idle (tw P Q ε m : Nat) (h0 : 0 < tw)
+    (hbound : 6000 * tw + 18 * m * M32 ≤ 1000 * M32) (hε : ε < Q)
+    (hlo : 1000 * (M32 * Q) ≤ 1000 * (P * tw) + m * (M32 * Q))
+    (hhi : 1000 * (P * tw) ≤ 1000 * (M32 * Q) + m * (M32 * Q))
+    (d : Nat) (hd : d < 256) (ln : Nat → Bool) (hln : ∀ k, ln k = frameBit d (((k + 1) * Q + ε) / P))
+    (s0 : RxSt) (hrun : s0.run = true) (hc : s0.count = 0) (hacc : s0.acc = ⟨HALF32, false⟩) (hrx : s0.rx = ln 0)
+    (hr0 : s0.r0 = ln 1) (hdat : s0.data < 256) :
+    let R := rxSampleCycle tw 10
+    let o := (uartRx tw).out (runFn (uartRx tw) s0 (fun k => ln (k + 2)) R) (ln (R + 2))
+    o.valid = true ∧ o.data = d := by
+  have htw : tw < M32 := by unfold M32 at *; omega
+  apply uart_rx_recovers_partial tw h0 htw ln s0 hrun hc hacc hrx hr0 hdat d hd
+  intro b hb
+  rw [hln]
+  exact rx_line_bit_idle tw P Q ε b m d h0 hbound hε hlo hhi hb
+
+/-- **uart_rx_tolerates_2pct_10.**  The ±2 % statement with at least ten (instead of sixteen) cycles per bit. -/
+theorem uart_rx_tolerates_2pct_10 (tw P Q ε : Nat) (h0 : 0 < tw) (h10 : 10 * tw ≤ M32) (hε : ε < Q)
+    (hlo : 98 * M32 * Q ≤ 100 * (P * tw)) (hhi : 100 * (P * tw) ≤ 102 * M32 * Q)
+    (d : Nat) (hd : d < 256) (ln : Nat → Bool) (hln : ∀ k, ln k = frameBit d (((k + 1) * Q + ε) / P))
+    (s0 : RxSt) (hrun : s0.run = true) (hc : s0.count = 0) (hacc : s0.acc = ⟨HALF32, false⟩) (hrx : s0.rx = ln 0)
+    (hr0 : s0.r0 = ln 1) (hdat : s0.data < 256) :
+    let R := rxSampleCycle tw 10
+    let o := (uartRx tw).out (runFn (uartRx tw) s0 (fun k => ln (k + 2)) R) (ln (R + 2))
+    o.valid = true ∧ o.data = d := by
+  have htw : tw < M32 := by unfold M32 at *; omega
+  apply uart_rx_recovers_partial tw h0 htw ln s0 hrun hc hacc hrx hr0 hdat d hd
+  intro b hb
+  have h := rx_tolerance_arith_10 tw P Q ε b h0 h10 hε hlo hhi hb
+  rw [hln]
+  congr 1
+  apply Nat.div_eq_of_lt_le
+  · exact h.1
+  · exact h.2
+
+/-- Non-vacuity of `uart_rx_tolerates_2pct_10` below sixteen cycles per bit: `tw = 2^32/10` rounded down (ten cycles
+    per bit), transmitter 2 % slow (`P/Q = 10.2` cycles), latest phase `ε = Q − 1`: the hypotheses hold, `16·tw ≤ 2^32`
+    does not, and byte 0xA5 is received. -/
+example :
+    let tw := 429496729
+    let ln : Nat → Bool := fun k => frameBit 0xA5 (((k + 1) * 10 + 9) / 102)
+    let s0 : RxSt := ⟨ln 1, ln 0, true, true, 0, 0, ⟨HALF32, false⟩⟩
+    (10 * tw ≤ M32 ∧ ¬ 16 * tw ≤ M32 ∧ 98 * M32 * 10 ≤ 100 * (102 * tw) ∧ 100 * (102 * tw) ≤ 102 * M32 * 10) ∧
+    (uartRx tw).out (runFn (uartRx tw) s0 (fun k => ln (k + 2)) (rxSampleCycle tw 10)) (ln (rxSampleCycle tw 10 + 2))
+      = ⟨true, 0xA5⟩ := by decide +kernel
+
+/-- Negative witness: the cycles-per-bit bound is needed.  Four cycles per bit (`tw = 2^30`), transmitter exactly 2 %
+    fast (`P/Q = 98/25 = 3.92` cycles), phase `ε = 24`: inside ±2 %, but byte 0x55 is received as 0xAA (every data
+    sample lands in the following bit). -/
+example :
+    let tw := 2 ^ 30
+    let ln : Nat → Bool := fun k => frameBit 0x55 (((k + 1) * 25 + 24) / 98)
+    let s0 : RxSt := ⟨ln 1, ln 0, true, true, 0, 0, ⟨HALF32, false⟩⟩
+    (98 * M32 * 25 ≤ 100 * (98 * tw) ∧ 100 * (98 * tw) ≤ 102 * M32 * 25) ∧
+    (uartRx tw).out (runFn (uartRx tw) s0 (fun k => ln (k + 2)) (rxSampleCycle tw 10)) (ln (rxSampleCycle tw 10 + 2))
+      = ⟨true, 0xAA⟩ := by decide +kernel
+
+/-- Negative witness close to the bound of `uart_rx_tolerates_general_idle`: `tw = 474000000` (9.06 cycles per bit,
+    `9·tw ≤ 2^32`, the bound asks for 9.375), transmitter exactly 2 % fast (`P/Q = 49·2^32/(50·tw)`), latest phase
+    `ε = Q − 1`: sample point 9 already sees the stop bit, byte 0x55 is received as 0xD5. -/
+example :
+    let tw := 474000000
+    let P := 49 * M32
+    let Q := 50 * tw
+    let ln : Nat → Bool := fun k => frameBit 0x55 (((k + 1) * Q + (Q - 1)) / P)
+    let s0 : RxSt := ⟨ln 1, ln 0, true, true, 0, 0, ⟨HALF32, false⟩⟩
+    (9 * tw ≤ M32 ∧ 98 * M32 * Q ≤ 100 * (P * tw) ∧ 100 * (P * tw) ≤ 102 * M32 * Q) ∧
+    (uartRx tw).out (runFn (uartRx tw) s0 (fun k => ln (k + 2)) (rxSampleCycle tw 10)) (ln (rxSampleCycle tw 10 + 2))
+      = ⟨true, 0xD5⟩ := by decide +kernel
+
+/-- **uart_loopback_aligned_partial.**  `uart_loopback_partial` under the exact alignment condition instead of
+    `4·tw ≤ 2^32`: `loopbackAligned tw` says that one cycle after each of the ten sample points `b + 1` the
+    transmitter's phase accumulator has wrapped exactly `b` times, `⌊(⌈(b+½)·2^32/tw⌉ + 1)·tw / 2^32⌋ = b`
+    (decidable; it implies `0 < tw` and `2·tw < 2^32`, and it follows from `0 < tw`, `4·tw ≤ 2^32`:
+    `loopbackAligned_of_four`).  Then the receiver produces exactly one byte, `d`, in cycle `4 + ⌈9.5·2^32/tw⌉`, and
+    nothing before. -/
+theorem uart_loopback_aligned_partial (tw : Nat) (hal : loopbackAligned tw = true) (sT : TxSt)
+    (hTrun : sT.run = false) (hTtx : sT.tx = true) (f : Nat → TxIn) (hv : (f 0).valid = true)
+    (hd : (f 0).data < 256) (sR : RxSt) (hRrun : sR.run = false) (hr0 : sR.r0 = true) (hrx : sR.rx = true)
+    (hrxd : sR.rxD = true) (hdat : sR.data < 256) :
+    let pad := txPad tw sT f
+    let o := fun t => (uartRx tw).out (runFn (uartRx tw) sR pad t) (pad t)
+    let R := 4 + rxSampleCycle tw 10
+    (o R).valid = true ∧ (o R).data = (f 0).data ∧ ∀ t, t < R → (o t).valid = false := by
+  intro pad o R
+  have h0 : 0 < tw := loopbackAligned_pos tw hal
+  have htw : tw < M32 := by have := loopbackAligned_lt tw hal; omega
+  have hp := txPad_frame tw htw sT hTrun hTtx f hv hd
+  have hp1 : pad 1 = false := by
+    have := hp.2 0 (by unfold M32; omega)
+    simp only [Nat.zero_mul, Nat.zero_div] at this
+    exact this
+  obtain ⟨hidle, hrun4, hc4, hacc4, hrx4, hr04, hdat4⟩ := rx_detect tw sR pad hRrun hr0 hrx hrxd hp.1 hp1
+  -- the line as the receiver's RUN phase sees it
+  let ln : Nat → Bool := fun k => pad (k + 2)
+  have hline : ∀ b, b ≤ 9 → ln (rxSampleCycle tw (b + 1)) = frameBit (f 0).data b :=
+    fun b hb => loopback_line_aligned tw hal sT hTrun hTtx f hv hd b hb
+  have hsplit : ∀ k, runFn (uartRx tw) sR pad (4 + k) =
+      runFn (uartRx tw) (runFn (uartRx tw) sR pad 4) (fun j => ln (j + 2)) k := by
+    intro k
+    rw [runFn_add]
+    congr 1
+    funext j
+    show pad (4 + j) = pad (j + 2 + 2)
+    congr 1; omega
+  have hrec := uart_rx_recovers_partial tw h0 htw ln (runFn (uartRx tw) sR pad 4) hrun4 hc4 hacc4
+    (by rw [hrx4]) (by rw [hr04]) (by rw [hdat4]; exact hdat) (f 0).data hd hline
+  have hfr := uart_rx_frame tw h0 htw ln (runFn (uartRx tw) sR pad 4) hrun4 hc4 hacc4
+    (by rw [hrx4]) (by rw [hr04]) (by rw [hdat4]; exact hdat)
+  simp only at hrec hfr
+  have hoR : ∀ k, o (4 + k) = (uartRx tw).out
+      (runFn (uartRx tw) (runFn (uartRx tw) sR pad 4) (fun j => ln (j + 2)) k) (ln (k + 2)) := by
+    intro k
+    show (uartRx tw).out (runFn (uartRx tw) sR pad (4 + k)) (pad (4 + k)) = _
+    rw [hsplit k]
+    congr 1
+    show pad (4 + k) = pad (k + 2 + 2)
+    congr 1; omega
+  refine ⟨?_, ?_, ?_⟩
+  · show (o (4 + rxSampleCycle tw 10)).valid = true
+    rw [hoR]; exact hrec.1
+  · show (o (4 + rxSampleCycle tw 10)).data = _
+    rw [hoR]; exact hrec.2
+  · intro t ht
+    by_cases h3 : t ≤ 3
+    · show (rxDone (runFn (uartRx tw) sR pad t) && _) = false
+      simp [rxDone, hidle t h3]
+    · obtain ⟨k, rfl⟩ : ∃ k, t = 4 + k := ⟨t - 4, by omega⟩
+      rw [hoR]
+      exact hfr.2.2.2.2 k (by omega)
+
+/-- `uart_loopback_partial` is the special case `4·tw ≤ 2^32`. -/
+example (tw : Nat) (h0 : 0 < tw) (h4 : 4 * tw ≤ M32) : loopbackAligned tw = true :=
+  loopbackAligned_of_four tw h0 h4
+
+/-- A whole window of tuning words beyond `uart_loopback_partial`: between 3 and 3 + 1/19 cycles per bit
+    (`19·2^32 ≤ 58·tw`, `3·tw < 2^32`; about 1407 … 1431 million) the loopback is aligned. -/
+example (tw : Nat) (h3 : 3 * tw < M32) (h58 : 19 * M32 ≤ 58 * tw) : loopbackAligned tw = true :=
+  loopbackAligned_of_three tw h3 h58
+
+/-- Non-vacuity beyond `uart_loopback_partial`: three cycles per bit (`tw = 0x55555555`, `3·tw = 2^32 − 1`) is aligned
+    although `4·tw > 2^32`, and byte 0xA5 loops back. -/
+example :
+    let tw := 0x55555555
+    let sT : TxSt := ⟨false, 0, 0, true, ⟨0, false⟩⟩
+    let sR : RxSt := ⟨true, true, true, false, 0, 0, ⟨0, false⟩⟩
+    let f : Nat → TxIn := fun t => ⟨t == 0, 0xA5⟩
+    let pad := txPad tw sT f
+    let R := 4 + rxSampleCycle tw 10
+    (loopbackAligned tw = true ∧ ¬ 4 * tw ≤ M32) ∧
+    (uartRx tw).out (runFn (uartRx tw) sR pad R) (pad R) = ⟨true, 0xA5⟩ := by decide +kernel
+
+/-- Negative witness outside the alignment hypothesis: one more (`tw = 0x55555556`, `3·tw = 2^32 + 2`) is not
+    aligned — every sample point sees the following bit — and byte 0xA5 comes back as 0xD2. -/
+example :
+    let tw := 0x55555556
+    let sT : TxSt := ⟨false, 0, 0, true, ⟨0, false⟩⟩
+    let sR : RxSt := ⟨true, true, true, false, 0, 0, ⟨0, false⟩⟩
+    let f : Nat → TxIn := fun t => ⟨t == 0, 0xA5⟩
+    let pad := txPad tw sT f
+    let R := 4 + rxSampleCycle tw 10
+    loopbackAligned tw = false ∧
+    (uartRx tw).out (runFn (uartRx tw) sR pad R) (pad R) = ⟨true, 0xD2⟩ := by decide +kernel
+
+/-! ## SPI slave: exact capture, MISO bit by bit -/
+
+/-- **shiftIn_word.**  The receive register (`Cat(mosi, self.mosi[:-1])` at every rising edge) for every width
+    `dw ≥ 1` and every word `w < 2^dw`: the `dw` bits of `w` shifted in MSB first give exactly `w`, whatever the
+    register held before (nothing of an earlier frame survives a full word).  After only `n ≤ dw` of those bits, bit
+    `k < n` of the register is bit `dw − n + k` of `w` (the low `n` bits are the top `n` bits of `w`).  For any list
+    of samples at all, bit `k` (below the width) is the sample taken `k` edges before the last. -/
+theorem shiftIn_word (dw w r : Nat) (hdw : 1 ≤ dw) (hw : w < 2 ^ dw) :
+    shiftIn dw r ((List.range dw).map (fun j => w.testBit (dw - 1 - j))) = w ∧
+    (∀ n, n ≤ dw → ∀ k, k < n →
+      (shiftIn dw r ((List.range n).map (fun j => w.testBit (dw - 1 - j)))).testBit k = w.testBit (dw - n + k)) ∧
+    (∀ (bs : List Bool) (k : Nat), k < dw → k < bs.length →
+      (shiftIn dw r bs).testBit k = bs.getD (bs.length - 1 - k) false) := by
+  refine ⟨shiftIn_msb_word dw w r hdw hw, fun n hn k hk => shiftIn_msb_bits dw w r n k hn hk, fun bs k hk hl => ?_⟩
+  rw [shiftIn_testBit dw bs r k hk, if_pos hl]
+
+example : shiftIn 8 0xFF ((List.range 8).map (fun j => (0xA5).testBit (8 - 1 - j))) = 0xA5 ∧
+    shiftIn 8 0xFF [true, false, true] = 0xFD := by decide
+
+/-- **spi_slave_capture.**  A chip-select frame in which the synchronised MOSI values at the `n ≤ dw` rising edges
+    are the first `n` bits of `w < 2^dw`, MSB first: the reported `length` is the number of clock pulses `n`
+    (mod 256), bit `k < n` of the received word is bit `dw − n + k` of `w` (as a number: the low `n` bits of `rx` are
+    `w` without its `dw − n` low bits), and after all `dw` pulses `rx = w` exactly, independent of what the register
+    held before the frame. -/
+theorem spi_slave_capture (dw : Nat) (hdw : 1 ≤ dw) (s : SlvSt) (i0 : SlvIn) (hx : s.xfer = false) (hc : s.s1 = true)
+    (ins : List SlvIn) (hcs : slvCsHeld dw (slvNext dw s i0) ins) (w : Nat) (hw : w < 2 ^ dw) (n : Nat) (hn : n ≤ dw)
+    (hs : slvSamples dw (slvNext dw s i0) ins = (List.range n).map (fun j => w.testBit (dw - 1 - j))) :
+    ((spiSlave dw).runFrom (slvNext dw s i0) ins).length = n % 256 ∧
+    (∀ k, k < n → ((spiSlave dw).runFrom (slvNext dw s i0) ins).rx.testBit k = w.testBit (dw - n + k)) ∧
+    ((spiSlave dw).runFrom (slvNext dw s i0) ins).rx % 2 ^ n = (w / 2 ^ (dw - n)) % 2 ^ n ∧
+    (n = dw → ((spiSlave dw).runFrom (slvNext dw s i0) ins).rx = w) := by
+  have h := spi_slave_xfer dw s i0 hx hc ins hcs
+  simp only at h
+  obtain ⟨_, hlen, hrx, _, _⟩ := h
+  rw [hs] at hlen hrx
+  refine ⟨by simpa using hlen, fun k hk => ?_, ?_, fun hnd => ?_⟩
+  · rw [hrx]; exact shiftIn_msb_bits dw w _ n k hn hk
+  · rw [hrx]; exact shiftIn_msb_prefix dw w _ n hn
+  · rw [hrx, hnd]; exact shiftIn_msb_word dw w _ hdw hw
+
+example :
+    let s : SlvSt := ⟨false, false, true, true, false, false, false, false, 0, 0, 0xF⟩
+    let i0 : SlvIn := ⟨false, false, false, 0b0110, false⟩
+    let frame : List SlvIn := ([true, false, true, false].flatMap fun b =>
+      [⟨false, false, b, 0, false⟩, ⟨false, false, b, 0, false⟩, ⟨true, false, b, 0, false⟩, ⟨true, false, b, 0, false⟩])
+      ++ List.replicate 3 i0
+    slvCsHeld 4 (slvNext 4 s i0) frame ∧
+    slvSamples 4 (slvNext 4 s i0) frame = (List.range 4).map (fun j => (0b1010).testBit (4 - 1 - j)) ∧
+    ((spiSlave 4).runFrom (slvNext 4 s i0) frame).rx = 0b1010 ∧
+    ((spiSlave 4).runFrom (slvNext 4 s i0) frame).length = 4 := by decide
+
+/-- **spi_slave_miso_sequence.**  MISO is MSB first over the whole frame: after every prefix of the frame's cycles
+    containing `f < dw` synchronised falling edges, the pad (loopback off) shows bit `dw − 1 − f` of the word `tx`
+    that was loaded when the frame started — bit `dw − 1` before the first falling edge, one position lower after
+    each. -/
+theorem spi_slave_miso_sequence (dw : Nat) (s : SlvSt) (i0 : SlvIn) (hx : s.xfer = false) (hc : s.s1 = true)
+    (ins : List SlvIn) (hcs : slvCsHeld dw (slvNext dw s i0) ins) (n : Nat) (j : SlvIn) (hj : j.loopback = false)
+    (hf : slvFalls dw (slvNext dw s i0) (ins.take n) < dw) :
+    ((spiSlave dw).out ((spiSlave dw).runFrom (slvNext dw s i0) (ins.take n)) j).miso =
+      i0.tx.testBit (dw - 1 - slvFalls dw (slvNext dw s i0) (ins.take n)) := by
+  have h := spi_slave_xfer dw s i0 hx hc (ins.take n) (slvCsHeld_take dw ins _ n hcs)
+  simp only at h
+  have hp := spi_slave_pads dw s i0 i0 i0 i0.tx _ hf
+  simp only at hp
+  exact hp.2 _ j hj h.2.2.2.1
+
+example :
+    let s : SlvSt := ⟨false, false, true, true, false, false, false, false, 0, 0, 0xF⟩
+    let i0 : SlvIn := ⟨false, false, false, 0b0110, false⟩
+    let frame : List SlvIn := ([true, false, true, false].flatMap fun b =>
+      [⟨false, false, b, 0, false⟩, ⟨false, false, b, 0, false⟩, ⟨true, false, b, 0, false⟩, ⟨true, false, b, 0, false⟩])
+      ++ List.replicate 3 i0
+    slvCsHeld 4 (slvNext 4 s i0) frame ∧
+    (List.range 20).map (fun n => (slvFalls 4 (slvNext 4 s i0) (frame.take n),
+      ((spiSlave 4).out ((spiSlave 4).runFrom (slvNext 4 s i0) (frame.take n)) i0).miso)) =
+      List.replicate 7 (0, false) ++ List.replicate 4 (1, true) ++ List.replicate 4 (2, true) ++
+      List.replicate 4 (3, false) ++ [(4, false)] := by decide
+
+/-! ## PWM: every (width, period), run-time changes -/
+
+/-- **pwm_period_zero_one.**  `period` = 0 or 1: the counter stays 0 for ever (from any counter value it is 0 after one
+    cycle), and every enabled cycle loads the output register with `width ≥ 1`: constant high unless `width = 0`. -/
+theorem pwm_period_zero_one (s : PwmSt) (hs : s.counter = 0) (ins : List PwmIn) (h : ∀ i ∈ ins, i.period ≤ 1)
+    (i : PwmIn) (hi : i.enable = true) :
+    (pwm.runFrom s ins).counter = 0 ∧ (pwmNext (pwm.runFrom s ins) i).pwm = decide (0 < i.width) ∧
+    (∀ s' : PwmSt, i.period ≤ 1 → (pwmNext s' i).counter = 0) := by
+  have hc := pwm_deg_period_counter ins h s hs
+  exact ⟨hc, by simp [pwmNext, hi, hc], fun s' hp => pwm_wrap_step s' i (by omega)⟩
+
+example : (pwm.trace (List.replicate 4 ⟨true, false, 1, 0⟩)) = [false, true, true, true] ∧
+    (pwm.trace (List.replicate 4 ⟨true, false, 0, 1⟩)) = [false, false, false, false] := by decide
+
+/-- **pwm_width_corners.**  `width = 0`: the output register is loaded with 0 in every cycle — any period, enable,
+    reset and state.  `width ≥ period ≥ 1` (up to the all-ones value), counter in range: it is loaded with 1 in every
+    enabled cycle — constant high, no glitch at the wrap. -/
+theorem pwm_width_corners :
+    (∀ (s : PwmSt) (i : PwmIn), i.width = 0 → (pwmNext s i).pwm = false) ∧
+    (∀ (s : PwmSt) (ins : List PwmIn), (∀ i ∈ ins, i.width = 0) → pwmHighs s ins = 0) ∧
+    (∀ (P : Nat) (s : PwmSt) (ins : List PwmIn), s.counter < P →
+      (∀ i ∈ ins, i.enable = true ∧ i.reset = false ∧ i.period = P ∧ P ≤ i.width) →
+      pwmHighs s ins = ins.length ∧
+      ∀ i : PwmIn, i.enable = true → P ≤ i.width → (pwmNext (pwm.runFrom s ins) i).pwm = true) := by
+  refine ⟨pwm_zero_width_step, fun s ins h => pwm_zero_width_highs ins h s, fun P s ins hs h => ?_⟩
+  refine ⟨pwm_full_width_highs P ins h s hs, fun i hi hw => ?_⟩
+  have hc := pwm_counter P ins (fun x hx => ⟨(h x hx).1, (h x hx).2.1, (h x hx).2.2.1⟩) s hs
+  have hlt : (pwm.runFrom s ins).counter < P := by rw [hc]; exact Nat.mod_lt _ (by omega)
+  have : (pwm.runFrom s ins).counter < i.width := by omega
+  simp [pwmNext, hi, this]
+
+example : (pwm.trace (List.replicate 6 ⟨true, false, 0, 3⟩)) = List.replicate 6 false ∧
+    (pwm.trace (List.replicate 6 ⟨true, false, 255, 3⟩)) = false :: List.replicate 5 true := by decide
+
+/-- **pwm_disable_reset.**  `enable = 0` clears counter and output register whatever `reset`, `width`, `period` are.
+    `reset = 1` while enabled clears the counter, but the output register still follows the old counter
+    (`pwm.eq(enable & (counter < width))` is outside the reset guard).  After either, the phase restarts: `k` enabled
+    cycles later the counter is `k mod period` and the output follows it. -/
+theorem pwm_disable_reset (s : PwmSt) (i : PwmIn) :
+    (i.enable = false → pwmNext s i = ⟨0, false⟩) ∧
+    (i.enable = true → i.reset = true → pwmNext s i = ⟨0, decide (s.counter < i.width)⟩) ∧
+    ((i.enable = false ∨ i.reset = true) → ∀ (P : Nat) (ins : List PwmIn) (j : PwmIn), 1 ≤ P →
+      (∀ x ∈ ins, x.enable = true ∧ x.reset = false ∧ x.period = P) → j.enable = true →
+      (pwm.runFrom (pwmNext s i) ins).counter = ins.length % P ∧
+      (pwmNext (pwm.runFrom (pwmNext s i) ins) j).pwm = decide (ins.length % P < j.width)) := by
+  refine ⟨pwm_off_step s i, pwm_reset_step s i, fun hoff P ins j hP h hj => ?_⟩
+  have h0 : (pwmNext s i).counter = 0 := by
+    rcases hoff with he | hr
+    · simp [pwmNext, he]
+    · simp [pwmNext, hr]
+  have := pwm_wave P (pwmNext s i) (by omega) ins h j hj
+  rwa [h0, Nat.zero_add] at this
+
+example : (pwm.trace [⟨true, false, 2, 4⟩, ⟨true, false, 2, 4⟩, ⟨true, false, 2, 4⟩, ⟨true, true, 2, 4⟩,
+    ⟨true, false, 2, 4⟩, ⟨true, false, 2, 4⟩, ⟨true, false, 2, 4⟩, ⟨false, false, 2, 4⟩, ⟨true, false, 2, 4⟩]) =
+    [false, true, true, false, false, true, true, false, false] := by decide
+
+/-- **pwm_exact_waveform.**  From counter 0, after any number `k` of enabled cycles with constant `period = P ≥ 1` and
+    `width = W`: the counter is `k mod P`, the output one cycle later is high iff `k mod P < W`, and the number of
+    high cycles so far is `(k / P)·min(W, P) + min(W, k mod P)` — `n·min(W, P)` over `n` whole periods. -/
+theorem pwm_exact_waveform (P W : Nat) (hP : 1 ≤ P) (s : PwmSt) (hs : s.counter = 0) (ins : List PwmIn)
+    (h : ∀ i ∈ ins, i.enable = true ∧ i.reset = false ∧ i.period = P ∧ i.width = W)
+    (i : PwmIn) (hi : i.enable = true) (hw : i.width = W) :
+    (pwm.runFrom s ins).counter = ins.length % P ∧
+    (pwmNext (pwm.runFrom s ins) i).pwm = decide (ins.length % P < W) ∧
+    pwmHighs s ins = (ins.length / P) * min W P + min W (ins.length % P) ∧
+    (∀ n, ins.length = n * P → pwmHighs s ins = n * min W P) := by
+  have hc := PwmConst.counter h s (by omega)
+  rw [hs, Nat.zero_add] at hc
+  exact ⟨hc, by simp [pwmNext, hi, hc, hw], pwm_highs_any P W hP ins h s hs,
+    fun n hn => pwm_highs_periods P W hP n ins h s hs hn⟩
+
+example : pwmHighs ⟨0, false⟩ (List.replicate 11 ⟨true, false, 3, 4⟩) = 2 * 3 + 3 ∧
+    pwmHighs ⟨0, false⟩ (List.replicate 12 ⟨true, false, 3, 4⟩) = 3 * 3 := by decide
+
+/-- **pwm_out_of_range.**  A counter at or above `period − 1` (the period was lowered at run time) returns to 0 in the
+    next cycle; after any single cycle with `period = P ≥ 1` the counter is below `P`, from whatever value, so the
+    mod-`P` waveform is re-established one cycle after a change of `period`. -/
+theorem pwm_out_of_range (s : PwmSt) (i : PwmIn) :
+    (i.period ≤ s.counter + 1 → (pwmNext s i).counter = 0) ∧
+    (1 ≤ i.period → (pwmNext s i).counter < i.period) ∧
+    (1 ≤ i.period → ∀ (ins : List PwmIn) (j : PwmIn),
+      (∀ x ∈ ins, x.enable = true ∧ x.reset = false ∧ x.period = i.period) → j.enable = true →
+      (pwm.runFrom (pwmNext s i) ins).counter = ((pwmNext s i).counter + ins.length) % i.period ∧
+      (pwmNext (pwm.runFrom (pwmNext s i) ins) j).pwm =
+        decide (((pwmNext s i).counter + ins.length) % i.period < j.width)) := by
+  have hr : 1 ≤ i.period → (pwmNext s i).counter < i.period := fun hP => by
+    rcases pwm_counter_in_range s i with h0 | h1
+    · omega
+    · exact h1
+  exact ⟨pwm_wrap_step s i, hr, fun hP ins j h hj => pwm_wave i.period (pwmNext s i) (hr hP) ins h j hj⟩
+
+example : (pwmNext ⟨7, true⟩ ⟨true, false, 2, 3⟩).counter = 0 := by decide
+
+/-! ## Timer: the whole waveform -/
+
+/-- **timer_full_waveform.**  After any history, a disabled cycle loads `load = L`; `k` enabled cycles with constant
+    `reload = R` later (any `k`) the counter is `L − k` while `k ≤ L`, then `R − ((k − L − 1) mod (R + 1))`: it counts
+    `L, …, 1, 0, R, R−1, …, 0, R, …` (stays 0 for `R = 0`).  The zero event is raised exactly in the cycles with
+    `k ≥ L` and `R + 1` dividing `k − L`: first after `L` cycles, then every `R + 1` cycles. -/
+theorem timer_full_waveform (pre : List TimerIn) (d : TimerIn) (run : List TimerIn) (i : TimerIn) (R : Nat)
+    (hd : d.en = false) (hrun : ∀ j ∈ run, j.en = true ∧ j.reload = R) :
+    (timer.run (pre ++ d :: run)).value =
+      (if run.length ≤ d.load then d.load - run.length else R - (run.length - d.load - 1) % (R + 1)) ∧
+    ((timer.out (timer.run (pre ++ d :: run)) i).zero = true ↔
+      d.load ≤ run.length ∧ (R + 1) ∣ (run.length - d.load)) := by
+  simp only [Machine.run, Machine.runFrom_append, timer_runFrom_cons]
+  have hl := timer_disabled_loads (timer.runFrom timer.init pre) d hd
+  refine ⟨?_, ?_⟩
+  · rw [timer_value_closed R run hrun, hl]
+  · show ((timer.runFrom _ run).value == 0) = true ↔ _
+    rw [beq_iff_eq, timer_zero_closed R run hrun, hl]
+
+example : (timer.trace (⟨2, 3, false, false⟩ :: List.replicate 9 ⟨7, 3, true, false⟩)).map (·.zero) =
+    [true, false, false, true, false, false, false, true, false, false] := by decide
+
+/-- **timer_disabled_holds_load.**  While `en = 0` the counter is the `load` value of the previous cycle, so the zero
+    event shows `load == 0` (a disabled timer with `load = 0` raises zero at once). -/
+theorem timer_disabled_holds_load (pre : List TimerIn) (d i : TimerIn) (hd : d.en = false) :
+    (timer.run (pre ++ [d])).value = d.load ∧ (timer.out (timer.run (pre ++ [d])) i).zero = (d.load == 0) := by
+  have h := timer_disabled_run pre d hd timer.init
+  exact ⟨h, by show ((timer.runFrom timer.init (pre ++ [d])).value == 0) = _; rw [h]⟩
+
+example : (timer.trace [⟨5, 0, false, false⟩, ⟨0, 0, false, false⟩, ⟨3, 0, false, false⟩, ⟨3, 0, false, false⟩]).map
+    (·.zero) = [true, false, true, false] := by decide
+
+/-- **timer_update_latch_any.**  The status register changes only in cycles with `update_value` written, and then to
+    the counter value of that cycle. -/
+theorem timer_update_latch_any (pre : List TimerIn) (u : TimerIn) :
+    (timer.run (pre ++ [u])).status = if u.upd then (timer.run pre).value else (timer.run pre).status := by
+  simp only [Machine.run, Machine.runFrom_append, timer_runFrom_cons, timer_runFrom_nil]
+  rfl
+
+example : (timer.traceFrom ⟨0, 9⟩ [⟨5, 0, false, false⟩, ⟨5, 0, true, true⟩, ⟨5, 0, true, false⟩, ⟨5, 0, true, true⟩,
+    ⟨5, 0, true, false⟩]).map (·.status) = [9, 9, 5, 5, 3] := by decide
+
+/-! ## I2C: read, START/STOP, and exact cycle timing for every divider -/
+
+/-- **i2c_read_sequence.**  From READ0 with `bits = 7` (the state right after a read command is accepted in IDLE),
+    counting enabled FSM steps, for every previous register contents and every `sda_i` history: for `j < 8`, step
+    `2j+1` raises SCL and step `2j+2` lowers it and samples `sda_i` (the input `f (2j+1)` of that step); SDA is not
+    touched during the data bits (steps 1…15).  After step 16 the data register is exactly the eight samples MSB
+    first (`i2cRxByte f`, bit `7 − j` = sample `j`, nothing of the old contents survives), SCL is low and SDA carries
+    the master acknowledge `¬ack`; step 17 raises SCL, step 18 lowers it, releases SDA and is back in IDLE with the
+    byte still in the register and `ack` unchanged: 18 steps in all. -/
+theorem i2c_read_sequence (s : I2cSt) (f : Nat → I2cIn) (hf : s.fsm = .read0) (hb : s.bits = 7) :
+    (∀ j, j < 8 →
+      (i2cSteps s f (2 * j + 1)).scl = true ∧ (i2cSteps s f (2 * j + 1)).sda = s.sda ∧
+      (i2cSteps s f (2 * j + 2)).scl = false ∧ (j < 7 → (i2cSteps s f (2 * j + 2)).sda = s.sda) ∧
+      (i2cSteps s f (2 * j + 2)).data.testBit 0 = (f (2 * j + 1)).sdaI ∧
+      (i2cSteps s f 16).data.testBit (7 - j) = (f (2 * j + 1)).sdaI) ∧
+    (i2cSteps s f 16).data = i2cRxByte f ∧ i2cRxByte f < 256 ∧
+    (i2cSteps s f 16).fsm = .writeack0 ∧ (i2cSteps s f 16).scl = false ∧ (i2cSteps s f 16).sda = !s.ack ∧
+    (i2cSteps s f 17).fsm = .writeack1 ∧ (i2cSteps s f 17).scl = true ∧ (i2cSteps s f 17).sda = !s.ack ∧
+    (i2cSteps s f 18).fsm = .idle ∧ (i2cSteps s f 18).scl = false ∧ (i2cSteps s f 18).sda = true ∧
+    (i2cSteps s f 18).data = i2cRxByte f ∧ (i2cSteps s f 18).ack = s.ack := by
+  obtain ⟨hlt, hbits, e1, e2, e3, e4, e5, e6, e7, e8, e9, _, e11⟩ := i2c_read_end s f hf hb
+  obtain ⟨b16, b18⟩ := i2c_read_byte s f hf hb
+  refine ⟨fun j hj => ?_, b16, by rw [← b16]; exact hlt, e1, e2, e3, e4, e5, e6, e7, e8, e9, b18, e11⟩
+  obtain ⟨a1, a2, a3, a4, _, a6, _⟩ := i2c_read_bits s f hf hb j hj
+  exact ⟨a1, a2, a3, a4, a6, hbits j hj⟩
+
+/-- Non-vacuity: reading 0xA5 (old register contents 0xFF, `ack = 1`): the byte, the ACK level on SDA at step 16,
+    and SCL over the 18 steps. -/
+example :
+    let f : Nat → I2cIn := fun k => ⟨false, false, false, false, Nat.testBit 0xA5 (7 - k / 2), 0, false, 0, false⟩
+    let s : I2cSt := ⟨.read0, false, true, 0xFF, true, 7, 0⟩
+    i2cRxByte f = 0xA5 ∧ (i2cSteps s f 18).data = 0xA5 ∧ (i2cSteps s f 18).fsm = .idle ∧
+    (i2cSteps s f 15).sda = true ∧ (i2cSteps s f 16).sda = false ∧ (i2cSteps s f 17).fsm ≠ .idle ∧
+    (List.range 19).map (fun k => (i2cSteps s f k).scl) =
+      [false, true, false, true, false, true, false, true, false, true, false, true, false, true, false, true, false,
+       true, false] := by decide +kernel
+
+/-- **i2c_start_stop_sequences.**  Counting enabled FSM steps from IDLE (step 1 is the acceptance of the strobe):
+    * START (start strobe, SCL released; other strobes irrelevant): START0, then SDA falls with SCL high — 2 steps;
+    * repeated START (start strobe, SCL low): RESTART0 releases SDA, RESTART1 releases SCL, START0 pulls SDA low —
+      4 steps, SCL is low whenever SDA rises;
+    * STOP (only the stop strobe, SCL low): STOP0 pulls SDA low, STOP1 releases SCL, STOP2 releases SDA — 4 steps;
+    * a lone stop strobe with SCL released is ignored ("stop is only valid after an ACK"): the FSM step changes
+      nothing, and in the full cycle only the divider counter ticks once (`run` enables the clock generator).
+    Data and ack registers are never touched. -/
+theorem i2c_start_stop_sequences (cw : Nat) (s : I2cSt) (f : Nat → I2cIn) (hf : s.fsm = .idle) :
+    ((f 0).start = true → s.scl = true →
+      (i2cSteps s f 1).fsm = .start0 ∧ (i2cSteps s f 1).scl = true ∧ (i2cSteps s f 1).sda = s.sda ∧
+      (i2cSteps s f 2).fsm = .idle ∧ (i2cSteps s f 2).scl = true ∧ (i2cSteps s f 2).sda = false ∧
+      (i2cSteps s f 2).data = s.data ∧ (i2cSteps s f 2).ack = s.ack) ∧
+    ((f 0).start = true → s.scl = false →
+      (i2cSteps s f 1).fsm = .restart0 ∧ (i2cSteps s f 1).scl = false ∧ (i2cSteps s f 1).sda = s.sda ∧
+      (i2cSteps s f 2).fsm = .restart1 ∧ (i2cSteps s f 2).scl = false ∧ (i2cSteps s f 2).sda = true ∧
+      (i2cSteps s f 3).fsm = .start0 ∧ (i2cSteps s f 3).scl = true ∧ (i2cSteps s f 3).sda = true ∧
+      (i2cSteps s f 4).fsm = .idle ∧ (i2cSteps s f 4).scl = true ∧ (i2cSteps s f 4).sda = false ∧
+      (i2cSteps s f 4).data = s.data ∧ (i2cSteps s f 4).ack = s.ack) ∧
+    ((f 0).stop = true → (f 0).start = false → (f 0).write = false → (f 0).read = false → s.scl = false →
+      (i2cSteps s f 1).fsm = .stop0 ∧ (i2cSteps s f 1).scl = false ∧ (i2cSteps s f 1).sda = s.sda ∧
+      (i2cSteps s f 2).fsm = .stop1 ∧ (i2cSteps s f 2).scl = false ∧ (i2cSteps s f 2).sda = false ∧
+      (i2cSteps s f 3).fsm = .stop2 ∧ (i2cSteps s f 3).scl = true ∧ (i2cSteps s f 3).sda = false ∧
+      (i2cSteps s f 4).fsm = .idle ∧ (i2cSteps s f 4).scl = true ∧ (i2cSteps s f 4).sda = true ∧
+      (i2cSteps s f 4).data = s.data ∧ (i2cSteps s f 4).ack = s.ack) ∧
+    ((f 0).stop = true → (f 0).start = false → (f 0).write = false → (f 0).read = false → s.scl = true →
+      i2cFsmStep s (f 0) = s ∧
+      i2cNext cw s (f 0) = (i2cPoked s (f 0)).setCnt (if s.cnt = 0 then (f 0).load else s.cnt - 1)) :=
+  ⟨fun h1 h2 => i2c_start_steps s f hf h2 h1, fun h1 h2 => i2c_restart_steps s f hf h2 h1,
+   fun h1 h2 h3 h4 h5 => i2c_stop_steps s f hf h5 h1 h2 h3 h4,
+   fun h1 h2 h3 h4 h5 => ⟨i2c_stop_ignored s (f 0) hf h5 h2 h3 h4,
+     i2c_next_stop_ignored cw s (f 0) hf h5 (by simp [I2cIn.run, h1]) h2 h3 h4⟩⟩
+
+/-- Non-vacuity: the (SCL, SDA) pairs of START, repeated START and STOP, and an ignored stop strobe. -/
+example :
+    let no : I2cIn := ⟨false, false, false, false, true, 2, false, 0, false⟩
+    let st : Nat → I2cIn := fun k => if k = 0 then { no with start := true } else no
+    let sp : Nat → I2cIn := fun k => if k = 0 then { no with stop := true } else no
+    let hi : I2cSt := ⟨.idle, true, true, 0x5A, false, 0, 2⟩
+    let lo : I2cSt := ⟨.idle, false, false, 0x5A, false, 0, 2⟩
+    (List.range 3).map (fun k => ((i2cSteps hi st k).scl, (i2cSteps hi st k).sda)) =
+      [(true, true), (true, true), (true, false)] ∧
+    (List.range 5).map (fun k => ((i2cSteps lo st k).scl, (i2cSteps lo st k).sda)) =
+      [(false, false), (false, false), (false, true), (true, true), (true, false)] ∧
+    (List.range 5).map (fun k => ((i2cSteps lo sp k).scl, (i2cSteps lo sp k).sda)) =
+      [(false, false), (false, false), (false, false), (true, false), (true, true)] ∧
+    i2cNext 2 hi (sp 0) = { hi with cnt := 1 } := by decide +kernel
+
+/-- **i2c_step_timing.**  Timing of the FSM steps for every clock divider.  From any busy state `s` (`fsm ≠ IDLE`)
+    with divider counter `c = s.cnt`, with a constant `load = l`, no bus write to the transfer register, and
+    arbitrary command strobes and `sda_i`: let `R = i2cRank s` be the number of FSM steps back to IDLE and
+    `g j = f (c + j·(l+1))`.  Then
+    * for `t ≤ c` cycles nothing but the counter has moved (`cnt = c − t`);
+    * FSM step `k < R` happens exactly in cycle `c + k·(l+1)` with the inputs of that cycle: after `c + k·(l+1) + 1`
+      cycles the registers (fsm, SCL, SDA, data, ack, bits) are those after `k + 1` FSM steps (`i2cSteps`, see
+      `i2c_write_sequence` / `i2c_read_sequence` / `i2c_start_stop_sequences`) and `cnt = l`; during the following
+      `d ≤ l` cycles, as long as that was not the last step, only the counter moves (`cnt = l − d`).
+    So every SCL/SDA edge of a command sits at cycle `c + k·(l+1)` for its step number `k`, consecutive steps are
+    exactly `l + 1` cycles apart, and strobes arriving while busy change nothing. -/
+theorem i2c_step_timing (cw l : Nat) (f : Nat → I2cIn) (hl : ∀ t, (f t).load = l) (hp : ∀ t, (f t).poke = false)
+    (s : I2cSt) (hb : s.bits < 16) (hn : s.fsm ≠ .idle) :
+    let g := i2cTickIn f s.cnt l
+    (∀ j, g j = f (s.cnt + j * (l + 1))) ∧
+    (∀ t, t ≤ s.cnt → runFn (i2cMachine cw) s f t = s.setCnt (s.cnt - t)) ∧
+    (∀ k d, k < i2cRank s → d ≤ l → (k + 1 < i2cRank s ∨ d = 0) →
+      runFn (i2cMachine cw) s f (s.cnt + k * (l + 1) + 1 + d) = (i2cSteps s g (k + 1)).setCnt (l - d)) ∧
+    (∀ k, k < i2cRank s → (i2cSteps s g k).fsm ≠ .idle) ∧ (i2cSteps s g (i2cRank s)).fsm = .idle := by
+  intro g
+  obtain ⟨w, st, bt⟩ := i2c_busy_states cw l f hl hp s hb
+  refine ⟨fun _ => rfl, fun t ht => w t ht hn, ?_, fun k hk => i2c_steps_busy s g hb k hk, i2c_steps_idle s g hb⟩
+  intro k d hk hd hor
+  rcases hor with h | h
+  · exact bt k d h hd
+  · subst h; exact st k hk
+
+/-- Non-vacuity: write of 0x80 accepted with `load = 3`, `cnt = 2` after acceptance: SCL falls in cycle 2 (first
+    WRITE0 step, visible after 3 cycles), rises in cycle 6, falls in cycle 10, … — one step every 4 cycles. -/
+example :
+    let no : I2cIn := ⟨true, true, true, true, true, 3, false, 0, false⟩   -- strobe noise while busy
+    let s : I2cSt := ⟨.write0, true, false, 0x80, false, 8, 2⟩
+    (List.range 16).map (fun t => ((runFn (i2cMachine 2) s (fun _ => no) t).scl,
+                                   (runFn (i2cMachine 2) s (fun _ => no) t).sda)) =
+      [(true, false), (true, false), (true, false), (false, true), (false, true), (false, true), (false, true),
+       (true, true), (true, true), (true, true), (true, true), (false, false), (false, false), (false, false),
+       (false, false), (true, false)] := by decide +kernel
+
+/-- **i2c_command_exact_cycles.**  Exact duration of every command, for every divider.  A command strobe arrives in
+    IDLE in cycle 0; `load = l` is constant; everything else is arbitrary in every cycle: further strobes, `sda_i`,
+    and bus writes to the data/ack register (they change the bits, never the timing).  In the acceptance cycle
+    exactly one FSM step happens (even if `cnt = 0` in that cycle) and the counter becomes `c' = (cnt = 0 ? l :
+    cnt − 1)` (in IDLE without a strobe it is frozen).  With `R` remaining FSM steps the machine is outside IDLE
+    after `t` cycles for every `1 ≤ t ≤ B` and in IDLE, with `cnt = l`, after `B + 1` cycles, where
+    `B = c' + 1 + (R − 1)·(l + 1)`:
+      START (SCL high) `R = 1`, `B = c' + 1`;  repeated START (SCL low) `R = 3`, `B = c' + 1 + 2(l+1)`;
+      write `R = 19`, `B = c' + 1 + 18(l+1)`;  read `R = 18`, `B = c' + 1 + 17(l+1)`;
+      STOP (SCL low) `R = 3`, `B = c' + 1 + 2(l+1)`;  a lone stop with SCL high is ignored (still IDLE after the
+      acceptance cycle, only the counter has ticked). -/
+theorem i2c_command_exact_cycles (cw l : Nat) (f : Nat → I2cIn) (hl : ∀ t, (f t).load = l)
+    (s0 : I2cSt) (hf : s0.fsm = .idle) (hb : s0.bits < 16) (hr : (f 0).run = true) :
+    let c' := if s0.cnt = 0 then l else s0.cnt - 1
+    let Busy : Nat → Prop := fun B =>
+      (∀ t, 1 ≤ t → t ≤ B → (runFn (i2cMachine cw) s0 f t).fsm ≠ .idle) ∧
+      (runFn (i2cMachine cw) s0 f (B + 1)).fsm = .idle ∧ (runFn (i2cMachine cw) s0 f (B + 1)).cnt = l
+    runFn (i2cMachine cw) s0 f 1 = (i2cFsmStep (i2cPoked s0 (f 0)) (f 0)).setCnt c' ∧
+    ((f 0).start = true → s0.scl = true → Busy (c' + 1)) ∧
+    ((f 0).start = true → s0.scl = false → Busy (c' + 1 + 2 * (l + 1))) ∧
+    ((f 0).start = false → (f 0).write = true → Busy (c' + 1 + 18 * (l + 1))) ∧
+    ((f 0).start = false → (f 0).write = false → (f 0).read = true → Busy (c' + 1 + 17 * (l + 1))) ∧
+    ((f 0).start = false → (f 0).write = false → (f 0).read = false → s0.scl = false →
+      Busy (c' + 1 + 2 * (l + 1))) ∧
+    ((f 0).start = false → (f 0).write = false → (f 0).read = false → s0.scl = true →
+      runFn (i2cMachine cw) s0 f 1 = (i2cPoked s0 (f 0)).setCnt c') := by
+  intro c' Busy
+  obtain ⟨r1, r3, r19, r18, r3', _⟩ := i2c_accept_rank cw s0 (f 0) hf hr
+  have hB := fun R hR => i2c_accept_busy_any cw l f hl s0 hf hb hr R hR
+  have hacc : runFn (i2cMachine cw) s0 f 1 = (i2cFsmStep (i2cPoked s0 (f 0)) (f 0)).setCnt c' := by
+    show i2cNext cw s0 (f 0) = _
+    rw [i2c_next_accept cw s0 (f 0) hf hr, hl 0]
+  refine ⟨hacc, ?_, ?_, ?_, ?_, ?_, ?_⟩
+  · intro a b; have := hB 0 (r1 a b); simpa using this
+  · intro a b; exact hB 2 (r3 a b)
+  · intro a b; exact hB 18 (r19 a b)
+  · intro a b c; exact hB 17 (r18 a b c)
+  · intro a b c d; exact hB 2 (r3' a b c d)
+  · intro a b c d
+    show i2cNext cw s0 (f 0) = _
+    rw [i2c_next_stop_ignored cw s0 (f 0) hf d hr a b c, hl 0]
+
+/-- Non-vacuity: reading 0xA5 with `load = 2`, counter at 2 in IDLE (as left by a previous command): `c' = 1`,
+    busy for exactly `1 + 1 + 17·3 = 53` cycles after the acceptance cycle, the byte is in the register when IDLE is
+    reached after 54 cycles; the slave drives each bit for 6 cycles, the samples are taken in cycles 5, 11, …, 47.
+    Same for a write with `load = 1`, `cnt = 0` in the acceptance cycle and bus writes to the data register in
+    cycles 0 and 7: `c' = 1`, `B = 1 + 1 + 18·2 = 38`. -/
+example :
+    let f : Nat → I2cIn := fun t =>
+      ⟨false, false, false, t == 0, Nat.testBit 0xA5 (7 - (t - 5) / 6), 2, false, 0, false⟩
+    let s0 : I2cSt := ⟨.idle, false, true, 0xFF, false, 0, 2⟩
+    let w : Nat → I2cIn := fun t => ⟨false, false, t == 0, false, true, 1, t == 0 || t == 7, 0xC3, false⟩
+    let z0 : I2cSt := ⟨.idle, false, true, 0, false, 0, 0⟩
+    (runFn (i2cMachine 2) s0 f 1).cnt = 1 ∧ i2cRank (runFn (i2cMachine 2) s0 f 1) = 18 ∧
+    (runFn (i2cMachine 2) s0 f 53).fsm ≠ .idle ∧ (runFn (i2cMachine 2) s0 f 54).fsm = .idle ∧
+    (runFn (i2cMachine 2) s0 f 54).data = 0xA5 ∧ (runFn (i2cMachine 2) s0 f 54).cnt = 2 ∧
+    (runFn (i2cMachine 2) z0 w 1).cnt = 1 ∧ (runFn (i2cMachine 2) z0 w 1).fsm = .write0 ∧
+    (runFn (i2cMachine 2) z0 w 38).fsm ≠ .idle ∧ (runFn (i2cMachine 2) z0 w 39).fsm = .idle := by decide +kernel
+
+/-! ## I2CMaster: register interface (sequencer side) -/
+
+/-- **i2c_master_registers.**  The register interface of `I2CMaster` (the sequencer side): a bus cycle is accepted when
+    `cyc ∧ stb` and the core did not acknowledge in the previous cycle; it is acknowledged in the next cycle.  A write
+    to address 1 loads the 20-bit divider; a write to address 0 sets the command strobes from `dat_w[9..12]`
+    (read, write, start, stop) — they are the inputs of the bit machine in the next cycle, together with the divider —
+    and since the acknowledging cycle cannot accept another access, every strobe is a one-cycle pulse.  With
+    `i2c_command_exact_cycles` (the machine accepts a strobe in IDLE and is busy for exactly
+    `c' + 1 + (R−1)·(load+1)` cycles) and `i2c_step_timing` this gives the exact SCL/SDA times of every command
+    written by software. -/
+theorem i2c_master_registers (s : I2cmSt) (i : I2cmIn) :
+    let acc := i.cyc && i.stb && !s.busAck
+    let wrX := acc && i.we && !i.adr0
+    let s' := i2cmNext s i
+    s'.busAck = acc ∧
+    s'.rd = (wrX && i.datW.testBit 9) ∧ s'.wr = (wrX && i.datW.testBit 10) ∧
+    s'.st = (wrX && i.datW.testBit 11) ∧ s'.sp = (wrX && i.datW.testBit 12) ∧
+    s'.load = (if acc && i.we && i.adr0 then i.datW % 2 ^ 20 else s.load) ∧
+    (∀ j, (s'.machIn j).start = s'.st ∧ (s'.machIn j).stop = s'.sp ∧ (s'.machIn j).write = s'.wr ∧
+          (s'.machIn j).read = s'.rd ∧ (s'.machIn j).load = s'.load ∧ (s'.machIn j).poke = false) ∧
+    (s'.busAck = true → ∀ j, (i2cmNext s' j).rd = false ∧ (i2cmNext s' j).wr = false ∧ (i2cmNext s' j).st = false ∧
+          (i2cmNext s' j).sp = false ∧ (i2cmNext s' j).busAck = false) := by
+  intro acc wrX s'
+  refine ⟨rfl, rfl, rfl, rfl, rfl, rfl, fun j => ⟨rfl, rfl, rfl, rfl, rfl, rfl⟩, fun h j => ?_⟩
+  simp [i2cmNext] at *
+  simp [h]
+
+/-- Non-vacuity: software writes START (bit 11) while the core idles: one strobe cycle, then none. -/
+example :
+    let w : I2cmIn := ⟨true, true, true, false, 2048, true, true⟩
+    let s1 := i2cmNext i2cMaster.init w
+    let s2 := i2cmNext s1 w
+    (s1.st, s1.busAck, s2.st, s2.busAck) = (true, true, false, false) := by decide
+
+/-! ## Watchdog: the whole timeout waveform -/
+
+/-- **watchdog_timeout_exact.**  For every `reset_delay = d`, every state without a pending timeout and every feed
+    value `C`: after the feed, `n` enabled, unfed cycles in reset mode later (any `n`)
+      * `remaining = C − n` (saturating at 0),
+      * the timeout event `ev.wdt.trigger` is high iff `n ≥ C + 1` — exactly `C + 1` enabled cycles after the feed, not
+        earlier —,
+      * the reset output is high iff `n ≥ C + 1 + d`: exactly `reset_delay` cycles after the timeout, and it stays. -/
+theorem watchdog_timeout_exact (d : Nat) (s : WdSt) (fd : WdIn) (hfd : fd.feed = true) (he : s.execute = false)
+    (ins : List WdIn) (h : ∀ i ∈ ins, i.enable = true ∧ i.feed = false ∧ i.resetF = true)
+    (i : WdIn) (hie : i.enable = true) (hir : i.resetF = true) :
+    let st := (watchdog d).runFrom (wdNext d s fd) ins
+    st.remaining = fd.cycles - ins.length ∧
+    ((watchdog d).out st i).trigger = decide (fd.cycles + 1 ≤ ins.length) ∧
+    ((watchdog d).out st i).crgRst = decide (fd.cycles + 1 + d ≤ ins.length) := by
+  intro st
+  have hinv := wd_after_feed_run d fd.cycles ins h 0 _ (wd_feed_entry d s fd hfd he)
+  rw [Nat.zero_add] at hinv
+  obtain ⟨h1, h2, h3⟩ := hinv
+  refine ⟨h1, ?_, ?_⟩
+  · show (i.enable && st.execute) = _
+    rw [hie, show st.execute = _ from h2]
+    simp only [Bool.true_and, decide_eq_decide]; omega
+  · show (wdWait st i && WaitTimer.done st.rcount) = _
+    simp only [wdWait, hie, hir, show st.execute = _ from h2, show st.rcount = _ from h3, WaitTimer.done,
+      Bool.true_and, Bool.and_true]
+    by_cases hc : fd.cycles < ins.length
+    · by_cases h0 : d - (ins.length - (fd.cycles + 1)) = 0
+      · have : fd.cycles + 1 + d ≤ ins.length := by omega
+        simp [hc, h0, this]
+      · have : ¬ fd.cycles + 1 + d ≤ ins.length := by omega
+        simp [hc, h0, this]
+    · have : ¬ fd.cycles + 1 + d ≤ ins.length := by omega
+      simp [hc, this]
+
+/-- Non-vacuity: `reset_delay = 2`, feed 3: the event in cycle 4 after the feed, the reset in cycle 6. -/
+example :
+    let run : WdIn := ⟨false, true, true, false, false, 0⟩
+    ((watchdog 2).trace (⟨true, true, true, false, false, 3⟩ :: List.replicate 8 run)).map (fun o => (o.trigger, o.crgRst)) =
+    [(false, false), (false, false), (false, false), (false, false), (false, false), (true, false), (true, false),
+     (true, true), (true, true)] := by decide
+
+/-! ## SPI master: lengths outside `1 … data_width` (outside the property's quantifier) -/
+
+/-- **spi_master_bad_length_stuck.**  Why the length range is a hypothesis: with `length = 0`, or a length above the
+    range of the bit counter (`2^bits_for(data_width−1)`), the comparison `count == length − 1` never holds and the
+    master never leaves RUN — whatever the divider and the other inputs do, `done` never returns. -/
+theorem spi_master_bad_length_stuck (c : SpiCfg) (L : Nat) (hL : L = 0 ∨ c.cmod < L) (f : Nat → SpiIn)
+    (hf : ∀ t, (f t).length = L) (s : SpiSt) (hs : s.fsm = .run) (hc : s.count < c.cmod) (n : Nat) :
+    (runFn (spiMaster c) s f n).fsm = .run ∧ (runFn (spiMaster c) s f n).count < c.cmod ∧
+    ((spiMaster c).out (runFn (spiMaster c) s f n) (f n)).done = false := by
+  have hcm : 0 < c.cmod := Nat.two_pow_pos _
+  induction n with
+  | zero => exact ⟨hs, hc, by show (s.fsm == SpiFsm.idle && _) = false; rw [hs]; rfl⟩
+  | succ n ih =>
+    obtain ⟨h1, h2, _⟩ := ih
+    have hne : ((runFn (spiMaster c) s f n).count + 1 == (f n).length) = false := by
+      rw [hf n]
+      rcases hL with h | h
+      · subst h; simp
+      · have : (runFn (spiMaster c) s f n).count + 1 ≠ L := by omega
+        simp [this]
+    have hfsm : (runFn (spiMaster c) s f (n + 1)).fsm = .run := by
+      show (spiNext c _ _).fsm = _
+      simp [spiNext, h1, hne]
+    have hcnt : (runFn (spiMaster c) s f (n + 1)).count < c.cmod := by
+      show (spiNext c _ _).count < _
+      simp only [spiNext, h1]
+      split
+      · exact Nat.mod_lt _ hcm
+      · exact h2
+    refine ⟨hfsm, hcnt, ?_⟩
+    show ((runFn (spiMaster c) s f (n + 1)).fsm == SpiFsm.idle && _) = false
+    rw [hfsm]; rfl
+
+/-- The hypothesis is reachable: a transfer started with `length = 0` is in RUN (bit counter 0) after the START wait. -/
+example :
+    let x : SpiIn := ⟨false, 0, 0b1001, true, false, false, 3, true⟩
+    let s := (spiMaster ⟨4, false⟩).runFrom (spiMaster ⟨4, false⟩).init ({ x with start := true } :: List.replicate 3 x)
+    s.fsm = .run ∧ s.count = 0 := by decide
+
+/-! ## I2CMaster: the pads follow the bit machine -/
+
+/-- **i2c_pad_follows_machine.**  One cycle of the pad stage, for every state and bus activity.  The SCL pad is the
+    machine's `scl_o` wired-AND with the rest of the bus.  If nobody stretches the clock in this cycle
+    (`ext_scl = 1`), the registered copy `scl_i_n` is the machine's `scl_o` of this cycle, so in the next cycle the SDA
+    driver shows `¬sda_o` unless `scl_o` has just changed, in which case it keeps its value for that one cycle:
+    the pad waveform is the machine's waveform (`i2c_step_timing`, `i2c_write_sequence`, `i2c_read_sequence`,
+    `i2c_start_stop_sequences`) with every SDA change that coincides with an SCL edge postponed by one cycle. -/
+theorem i2c_pad_follows_machine (s : I2cmSt) (i : I2cmIn) :
+    let s' := i2cmNext s i
+    s.padScl i = (s.m.scl && i.extScl) ∧ s.padSda i = (!s.sdaOe && i.extSda) ∧
+    s'.sdaOeN = s.sdaOe ∧
+    (i.extScl = true →
+      s'.sclIn = s.m.scl ∧ s'.sdaOe = (if s.m.scl == s'.m.scl then !s'.m.sda else s.sdaOe)) := by
+  intro s'
+  refine ⟨?_, ?_, rfl, fun he => ?_⟩
+  · cases h1 : s.m.scl <;> simp [I2cmSt.padScl, I2cmSt.sclOe, h1]
+  · cases h1 : s.sdaOe <;> simp [I2cmSt.padSda, h1]
+  · have h1 : s'.sclIn = s.m.scl := by
+      show s.padScl i = _
+      cases h2 : s.m.scl <;> simp [I2cmSt.padScl, I2cmSt.sclOe, h2, he]
+    refine ⟨h1, ?_⟩
+    show (if s'.sclIn == s'.m.scl then !s'.m.sda else s'.sdaOeN) = _
+    rw [h1]
+    rfl
+
+/-- Non-vacuity: START at divider 1 — the machine lowers SDA (START0) and the driver follows in the same edge because
+    SCL did not move. -/
+example :
+    let idl : I2cmIn := ⟨false, false, false, false, 0, true, true⟩
+    let st := fun k => i2cMaster.runFrom { i2cMaster.init with load := 1 }
+      ((⟨true, true, true, false, 2048, true, true⟩ :: List.replicate 6 idl).take k)
+    (List.range 6).map (fun k => ((st k).m.scl, (st k).m.sda, (st k).sdaOe)) =
+    [(true, true, false), (true, true, false), (true, true, false), (true, true, false), (true, false, true),
+     (true, false, true)] := by decide
+
+/-! ## UART receiver end to end: from the pad, including start-edge detection
+    (needs `import LitexProofs.Periph.RxEnd`) -/
+
+/-- **uart_rx_pad_recovers_partial.**  From the pad, including start-edge detection.  The receiver is idle and has
+    seen the line high; the pad is high before cycle `t0` and low in `t0` (the first low sample of the start bit; any
+    `t0 ≥ 0`).  The receiver is in RUN from cycle `t0 + 3` on (two synchroniser registers and the edge detector) and
+    sample point `n` reads the pad of cycle `t0 + 1 + ⌈(n − ½)·2^32/tw⌉`.  Hypothesis: at these ten pad cycles the pad
+    carries frame bit `b = n − 1` of byte `d`.  Then the receiver's `source.valid` is high in cycle
+    `t0 + 3 + ⌈9.5·2^32/tw⌉` with `source.data = d`, it is low in every earlier cycle from cycle 0 on, and the receiver
+    is back in IDLE in the next cycle. -/
+theorem uart_rx_pad_recovers_partial (tw : Nat) (h0 : 0 < tw) (htw : tw < M32) (sR : RxSt) (hRrun : sR.run = false)
+    (hr0 : sR.r0 = true) (hrx : sR.rx = true) (hrxd : sR.rxD = true) (hdat : sR.data < 256)
+    (pad : Nat → Bool) (t0 : Nat) (hhigh : ∀ t, t < t0 → pad t = true) (hlow : pad t0 = false)
+    (d : Nat) (hd : d < 256)
+    (hline : ∀ b, b ≤ 9 → pad (t0 + 1 + rxSampleCycle tw (b + 1)) = frameBit d b) :
+    let o := fun t => (uartRx tw).out (runFn (uartRx tw) sR pad t) (pad t)
+    let R := t0 + 3 + rxSampleCycle tw 10
+    (o R).valid = true ∧ (o R).data = d ∧ (∀ t, t < R → (o t).valid = false) ∧
+    (runFn (uartRx tw) sR pad (R + 1)).run = false := by
+  intro o R
+  obtain ⟨hidle, hrun3, hc3, hacc3, hrx3, hr03, hdat3⟩ :=
+    rx_detect_at tw sR pad t0 hRrun hr0 hrx hrxd hhigh hlow
+  -- the line as the receiver's RUN phase sees it
+  let ln : Nat → Bool := fun k => pad (t0 + 1 + k)
+  have hsplit : ∀ k, runFn (uartRx tw) sR pad (t0 + 3 + k) =
+      runFn (uartRx tw) (runFn (uartRx tw) sR pad (t0 + 3)) (fun j => ln (j + 2)) k := by
+    intro k
+    rw [runFn_add]
+    congr 1
+    funext j
+    show pad (t0 + 3 + j) = pad (t0 + 1 + (j + 2))
+    congr 1; omega
+  have hrec := uart_rx_recovers_partial tw h0 htw ln (runFn (uartRx tw) sR pad (t0 + 3)) hrun3 hc3 hacc3
+    (by rw [hrx3]) (by rw [hr03]) (by rw [hdat3]; exact hdat) d hd hline
+  have hfr := uart_rx_frame tw h0 htw ln (runFn (uartRx tw) sR pad (t0 + 3)) hrun3 hc3 hacc3
+    (by rw [hrx3]) (by rw [hr03]) (by rw [hdat3]; exact hdat)
+  simp only at hrec hfr
+  have hpk : ∀ k, pad (t0 + 3 + k) = ln (k + 2) := by
+    intro k
+    show pad (t0 + 3 + k) = pad (t0 + 1 + (k + 2))
+    congr 1; omega
+  have hoR : ∀ k, o (t0 + 3 + k) = (uartRx tw).out
+      (runFn (uartRx tw) (runFn (uartRx tw) sR pad (t0 + 3)) (fun j => ln (j + 2)) k) (ln (k + 2)) := by
+    intro k
+    show (uartRx tw).out (runFn (uartRx tw) sR pad (t0 + 3 + k)) (pad (t0 + 3 + k)) = _
+    rw [hsplit k, hpk k]
+  refine ⟨?_, ?_, ?_, ?_⟩
+  · show (o (t0 + 3 + rxSampleCycle tw 10)).valid = true
+    rw [hoR]; exact hrec.1
+  · show (o (t0 + 3 + rxSampleCycle tw 10)).data = _
+    rw [hoR]; exact hrec.2
+  · intro t ht
+    by_cases h2 : t ≤ t0 + 2
+    · show (rxDone (runFn (uartRx tw) sR pad t) && _) = false
+      simp [rxDone, hidle t h2]
+    · obtain ⟨k, rfl⟩ : ∃ k, t = t0 + 3 + k := ⟨t - (t0 + 3), by omega⟩
+      rw [hoR]
+      exact hfr.2.2.2.2 k (by omega)
+  · show ((uartRx tw).next (runFn (uartRx tw) sR pad (t0 + 3 + rxSampleCycle tw 10))
+        (pad (t0 + 3 + rxSampleCycle tw 10))).run = false
+    rw [hsplit, hpk]
+    exact hfr.2.2.2.1
+
+/-- **uart_rx_end_to_end.**  An ideal transmitter with bit period `P/Q` clock cycles within ±`m` per mille of the
+    receiver's `2^32/tw` (`(1000 − m)·2^32·Q ≤ 1000·P·tw ≤ (1000 + m)·2^32·Q`, written without subtraction), whose start
+    edge falls at an arbitrary time: the pad is high before cycle `t0`, and from `t0` on pad cycle `t0 + j` shows frame
+    bit `⌊(j·Q + φ)/P⌋` of byte `d`, with `φ/Q < 1` the part of a cycle by which the edge precedes the sampling instant
+    of cycle `t0` (start bit, eight data bits LSB first, stop bit, then the line stays high).  Bound:
+    `6000·tw + 18·m·2^32 ≤ 1000·2^32`, i.e. `3 + 9·(m/1000)·R ≤ R/2` with `R = 2^32/tw` cycles per bit (`m = 20`:
+    `R ≥ 9.375`).  The receiver was idle with the line seen high.  Then `source.valid` is high in cycle
+    `t0 + 3 + ⌈9.5·2^32/tw⌉` with `source.data = d`, low in every earlier cycle from cycle 0 on, and the receiver is back
+    in IDLE in the next cycle. -/
+theorem uart_rx_end_to_end (tw P Q φ m : Nat) (h0 : 0 < tw)
+    (hbound : 6000 * tw + 18 * m * M32 ≤ 1000 * M32) (hφ : φ < Q)
+    (hlo : 1000 * (M32 * Q) ≤ 1000 * (P * tw) + m * (M32 * Q))
+    (hhi : 1000 * (P * tw) ≤ 1000 * (M32 * Q) + m * (M32 * Q))
+    (sR : RxSt) (hRrun : sR.run = false) (hr0 : sR.r0 = true) (hrx : sR.rx = true) (hrxd : sR.rxD = true)
+    (hdat : sR.data < 256) (d : Nat) (hd : d < 256) (pad : Nat → Bool) (t0 : Nat)
+    (hhigh : ∀ t, t < t0 → pad t = true) (hpad : ∀ j, pad (t0 + j) = frameBit d ((j * Q + φ) / P)) :
+    let o := fun t => (uartRx tw).out (runFn (uartRx tw) sR pad t) (pad t)
+    let R := t0 + 3 + rxSampleCycle tw 10
+    (o R).valid = true ∧ (o R).data = d ∧ (∀ t, t < R → (o t).valid = false) ∧
+    (runFn (uartRx tw) sR pad (R + 1)).run = false := by
+  have htw : tw < M32 := by unfold M32 at *; omega
+  have hφP : φ < P := by
+    have h := (rx_tolerance_arith_idle tw P Q φ 0 m h0 hbound hφ hlo hhi (by omega)).2 (by omega)
+    rw [Nat.one_mul] at h
+    omega
+  have hlow : pad t0 = false := by
+    have := hpad 0
+    rw [Nat.add_zero, Nat.zero_mul, Nat.zero_add, Nat.div_eq_of_lt hφP] at this
+    exact this
+  apply uart_rx_pad_recovers_partial tw h0 htw sR hRrun hr0 hrx hrxd hdat pad t0 hhigh hlow d hd
+  intro b hb
+  rw [Nat.add_assoc, hpad, Nat.add_comm 1]
+  exact rx_line_bit_idle tw P Q φ b m d h0 hbound hφ hlo hhi hb
+
+/-- **uart_rx_end_to_end_any.**  The same with anything on the line after the stop bit (for instance the start bit of
+    the next frame): the pad is only specified while `j·Q + φ < 10·P`.  All ten sample points then have to lie inside
+    their own bit, the mismatch accumulates over ten bit periods: `6000·tw + 20·m·2^32 ≤ 1000·2^32`
+    (`3 + 10·(m/1000)·R ≤ R/2`; `m = 20`: `R ≥ 10`). -/
+theorem uart_rx_end_to_end_any (tw P Q φ m : Nat) (h0 : 0 < tw)
+    (hbound : 6000 * tw + 20 * m * M32 ≤ 1000 * M32) (hφ : φ < Q)
+    (hlo : 1000 * (M32 * Q) ≤ 1000 * (P * tw) + m * (M32 * Q))
+    (hhi : 1000 * (P * tw) ≤ 1000 * (M32 * Q) + m * (M32 * Q))
+    (sR : RxSt) (hRrun : sR.run = false) (hr0 : sR.r0 = true) (hrx : sR.rx = true) (hrxd : sR.rxD = true)
+    (hdat : sR.data < 256) (d : Nat) (hd : d < 256) (pad : Nat → Bool) (t0 : Nat)
+    (hhigh : ∀ t, t < t0 → pad t = true)
+    (hpad : ∀ j, j * Q + φ < 10 * P → pad (t0 + j) = frameBit d ((j * Q + φ) / P)) :
+    let o := fun t => (uartRx tw).out (runFn (uartRx tw) sR pad t) (pad t)
+    let R := t0 + 3 + rxSampleCycle tw 10
+    (o R).valid = true ∧ (o R).data = d ∧ (∀ t, t < R → (o t).valid = false) ∧
+    (runFn (uartRx tw) sR pad (R + 1)).run = false := by
+  have htw : tw < M32 := by unfold M32 at *; omega
+  have hφP : φ < P := by
+    have h := (rx_tolerance_arith_general tw P Q φ 0 m h0 hbound hφ hlo hhi (by omega)).2
+    rw [Nat.one_mul] at h
+    omega
+  have hlow : pad t0 = false := by
+    have := hpad 0 (by omega)
+    rw [Nat.add_zero, Nat.zero_mul, Nat.zero_add, Nat.div_eq_of_lt hφP] at this
+    exact this
+  apply uart_rx_pad_recovers_partial tw h0 htw sR hRrun hr0 hrx hrxd hdat pad t0 hhigh hlow d hd
+  intro b hb
+  have h := rx_tolerance_arith_general tw P Q φ b m h0 hbound hφ hlo hhi hb
+  have h10 : (b + 1) * P ≤ 10 * P := Nat.mul_le_mul_right P (by omega)
+  rw [Nat.add_assoc, Nat.add_comm 1, hpad _ (by omega)]
+  congr 1
+  exact Nat.div_eq_of_lt_le h.1 h.2
+
+/-- Non-vacuity of `uart_rx_end_to_end`: `tw = ⌊2^32/10⌋` (ten cycles per bit), transmitter 2 % slow
+    (`P/Q = 102/10` cycles), start edge at `t0 = 5` with phase `φ = 3`, byte 0xA5: the hypotheses hold and the byte
+    appears in cycle `5 + 3 + 96 = 104`, with nothing before. -/
+example :
+    let tw := 429496729
+    let pad : Nat → Bool := fun t => if t < 5 then true else frameBit 0xA5 (((t - 5) * 10 + 3) / 102)
+    let sR : RxSt := ⟨true, true, true, false, 0, 0, ⟨0, false⟩⟩
+    let o := fun t => (uartRx tw).out (runFn (uartRx tw) sR pad t) (pad t)
+    (6000 * tw + 18 * 20 * M32 ≤ 1000 * M32 ∧ 1000 * (M32 * 10) ≤ 1000 * (102 * tw) + 20 * (M32 * 10) ∧
+      1000 * (102 * tw) ≤ 1000 * (M32 * 10) + 20 * (M32 * 10)) ∧
+    5 + 3 + rxSampleCycle tw 10 = 104 ∧ o 104 = ⟨true, 0xA5⟩ ∧
+    (List.range 104).all (fun t => !(o t).valid) = true := by decide +kernel
+
+/-- Negative witness just outside the bound: `tw = 474000000` (9.06 cycles per bit, `9·tw ≤ 2^32`; the bound asks for
+    9.375), transmitter exactly 2 % fast (`P/Q = 49·2^32/(50·tw)`), start edge at `t0 = 5` with the latest phase
+    `φ = Q − 1`: sample point 9 already sees the stop bit and byte 0x55 arrives as 0xD5. -/
+example :
+    let tw := 474000000
+    let P := 49 * M32
+    let Q := 50 * tw
+    let pad : Nat → Bool := fun t => if t < 5 then true else frameBit 0x55 (((t - 5) * Q + (Q - 1)) / P)
+    let sR : RxSt := ⟨true, true, true, false, 0, 0, ⟨0, false⟩⟩
+    let R := 5 + 3 + rxSampleCycle tw 10
+    (9 * tw ≤ M32 ∧ ¬ 6000 * tw + 18 * 20 * M32 ≤ 1000 * M32 ∧
+      1000 * (M32 * Q) ≤ 1000 * (P * tw) + 20 * (M32 * Q) ∧ 1000 * (P * tw) ≤ 1000 * (M32 * Q) + 20 * (M32 * Q)) ∧
+    (uartRx tw).out (runFn (uartRx tw) sR pad R) (pad R) = ⟨true, 0xD5⟩ := by decide +kernel
+
+/-! ## SPI master wired to SPI slave (pad to pad, one clock) -/
+
+/-- **spi_link_mosi.**  `spiLink c dw`: the slave's `clk / cs_n / mosi` inputs are the master's pad registers of the
+    same cycle, the master's `pads.miso` is the slave's MISO pad of the same cycle (`link_wiring`).  Master in IDLE
+    with `cs_n` high and `start = 1` in cycle 0 (divider `2 ≤ div < 2^16` at any phase `cnt`, length
+    `1 ≤ L ≤ data_width`, `cs = 1`, automatic CS mode, no loopback), slave in IDLE with its chip-select synchroniser
+    empty (`xfer = s0 = s1 = 0`; its clock/MOSI synchronisers, `length` and `rx` arbitrary).  With
+    `T = 1 + (div − (cnt+1) mod div)` the master's first RUN cycle and `E = T + L·div + div/2` its `done` cycle:
+    up to cycle `E + 3` the slave raises `start` exactly in cycle `T + 2` and `irq` exactly in cycle `E + 3` (one
+    frame), and in that `irq` cycle `length = L` and the low `L` bits of the received word are the `L` bits the
+    master sent, MSB first — for EVERY divider `≥ 2` (clock and MOSI pass through equal synchronisers; chip select
+    is asserted `div/2 ≥ 1` cycles before the first rising edge, which is exactly enough for the slave's FSM). -/
+theorem spi_link_mosi (c : SpiCfg) (dw div L : Nat) (hdiv : 2 ≤ div) (hd16 : div < 65536) (hL : 1 ≤ L)
+    (hLw : L ≤ c.dw) (x : Nat → LinkIn) (hx : ∀ t, SpiHold div L (x t).m) (st : LinkSt) (hs : IdleOk div st.m)
+    (hcs0 : st.m.csN = true) (hst : (x 0).m.start = true)
+    (hsx : st.s.xfer = false) (hs0 : st.s.s0 = false) (hs1 : st.s.s1 = false) :
+    let T := 1 + (div - (st.m.cnt + 1) % div)
+    let E := T + (L * div + div / 2)
+    let o := fun t => ((spiLink c dw).out (runFn (spiLink c dw) st x t) (x t)).2
+    (∀ t, t ≤ E + 3 → (o t).start = decide (t = T + 2) ∧ (o t).irq = decide (t = E + 3)) ∧
+    (o (E + 3)).length = L % 256 ∧
+    (∀ k, k < L → k < dw → (o (E + 3)).rx.testBit k = (x 0).m.mosi.testBit (spiSel0 c L - (L - 1 - k))) := by
+  intro T E o
+  have h := link_mosi_frame c dw div L hdiv hd16 hL hLw x hx st hs hcs0 hst hsx hs0 hs1
+  simp only at h
+  exact ⟨h.1, h.2.1, h.2.2.2⟩
+
+/-- The slave state `spi_link_mosi` starts from is reached three cycles after the master's `cs_n` pad went high. -/
+theorem spi_link_slave_idle (c : SpiCfg) (dw : Nat) (st : LinkSt) (x : Nat → LinkIn) (t : Nat)
+    (h0 : (runFn (spiLink c dw) st x t).m.csN = true) (h1 : (runFn (spiLink c dw) st x (t + 1)).m.csN = true)
+    (h2 : (runFn (spiLink c dw) st x (t + 2)).m.csN = true) :
+    (runFn (spiLink c dw) st x (t + 3)).s.xfer = false ∧ (runFn (spiLink c dw) st x (t + 3)).s.s1 = false ∧
+    (runFn (spiLink c dw) st x (t + 3)).s.s0 = false := by
+  rw [(link_proj c dw st x (t + 3)).2]
+  exact slv_idle_reached dw st.s (linkH c dw st x) t h0 h1 h2
+
+-- dw 4, L = 3, raw mode, word 0b1011 (top bits 101), slave `rx` 0xF and `length` 77 before, dividers 2, 3, 4 and two
+-- divider phases: the slave's (irq, length, rx) in cycle E + 3.
+example : ((List.range 3).map fun d =>
+    let div := d + 2
+    let x : Nat → LinkIn := fun t => ⟨⟨t == 0, 3, 0b1011, true, false, false, div, false⟩, 0b0110⟩
+    let st : LinkSt := ⟨⟨d, false, .idle, 0, true, 0, 0, false, 0, 0⟩,
+                        ⟨true, true, false, false, true, true, false, false, 77, 3, 0xF⟩⟩
+    let E := 1 + (div - (d + 1) % div) + (3 * div + div / 2)
+    let o := ((spiLink ⟨4, false⟩ 4).out (runFn (spiLink ⟨4, false⟩ 4) st x (E + 3)) (x (E + 3))).2
+    (o.irq, o.length, o.rx)) = [(true, 3, 0b1101), (true, 3, 0b1101), (true, 3, 0b1101)] := by decide
+
+/-- **spi_link_miso_partial.**  The other direction needs a slow enough clock: the slave moves MISO three cycles
+    after the master's falling edge (two synchroniser registers and the edge detector), the master samples
+    `div/2 − 1` cycles after it.  For every divider `8 ≤ div < 2^16` (and `L ≤` the slave's width) the word the
+    master has latched when `done` returns (cycle `E`) is, bit for bit, the top `L` bits of the word the slave read
+    from its `tx` input in its `start` cycle `T + 2`.  (`_partial`: dividers 2 … 7 fail, see the witness below.) -/
+theorem spi_link_miso_partial (c : SpiCfg) (dw div L : Nat) (hdiv : 8 ≤ div) (hd16 : div < 65536) (hL : 1 ≤ L)
+    (hLw : L ≤ c.dw) (hLd : L ≤ dw) (x : Nat → LinkIn) (hx : ∀ t, SpiHold div L (x t).m) (st : LinkSt)
+    (hs : IdleOk div st.m) (hcs0 : st.m.csN = true) (hst : (x 0).m.start = true) :
+    let T := 1 + (div - (st.m.cnt + 1) % div)
+    let E := T + (L * div + div / 2)
+    ∀ k, k < L →
+      ((spiLink c dw).out (runFn (spiLink c dw) st x E) (x E)).1.miso.testBit k = (x (T + 2)).tx.testBit (dw - L + k) :=
+  link_miso_word c dw div L hdiv hd16 hL hLw hLd x hx st hs hcs0 hst
+
+-- dw 4, L = 3, slave word 0b1100 (top bits 110): divider 8 delivers 0b110;
+-- NEGATIVE WITNESS: divider 7 (same start state) delivers 0b011 — the first sample still sees the slave's old
+-- transmit register, the others are one bit late.
+example : ((List.range 2).map fun d =>
+    let div := 8 - d
+    let x : Nat → LinkIn := fun t => ⟨⟨t == 0, 3, 0b1011, true, false, false, div, false⟩, 0b1100⟩
+    let st : LinkSt := ⟨⟨0, false, .idle, 0, true, 0, 0, false, 0, 0⟩,
+                        ⟨true, true, false, false, true, true, false, false, 77, 3, 0xF⟩⟩
+    let E := 1 + (div - 1 % div) + (3 * div + div / 2)
+    ((spiLink ⟨4, false⟩ 4).out (runFn (spiLink ⟨4, false⟩ 4) st x E) (x E)).1.miso) = [0b110, 0b011] := by decide
+
+/-! ## The remaining small pieces of the anchor files: `add_auto_tx_flush`, multiplexers, PHY model, `misc.py`
+    (needs `import LitexProofs.Periph.Glue2`) -/
+
+/-- **uart_auto_flush_transparent.**  `UART.add_auto_tx_flush`: as long as `source.ready` comes often enough — before
+    every cycle the number of consecutive cycles without `source.ready` is below the timeout `T`
+    (`rdyWithin T 0 ins`) — the flush logic is invisible: same FIFO states and same port values as the plain `UART`,
+    for every software / PHY history; in particular `uart_top_no_loss_in_order` applies (no character dropped). -/
+theorem uart_auto_flush_transparent (dtx drx : Nat) (rxWe : Bool) (T k : Nat) (ins : List UartTopIn)
+    (h : rdyWithin T 0 ins = true) :
+    ((uartFlush dtx drx rxWe T k).run ins).top = (uartTopM dtx drx rxWe).run ins ∧
+    (uartFlush dtx drx rxWe T k).trace ins = (uartTopM dtx drx rxWe).trace ins :=
+  flush_transparent_from dtx drx rxWe T k ins _ 0 rfl h
+
+example :
+    let w : Nat → Bool → UartTopIn := fun d r => ⟨true, d, false, false, false, 0, r⟩
+    let ins := [w 0x41 false, w 0x42 false, w 0x43 true, w 0x44 false, w 0x45 false, w 0x46 true]
+    rdyWithin 3 0 ins = true ∧ fbInflight ((uartFlush 4 4 false 3 1).run ins).top.tx = [tokN 0x43, tokN 0x44, tokN 0x45, tokN 0x46] := by
+  decide
+
+/-- **uart_auto_flush_drop_rate.**  In flush mode (`timer.done`, i.e. `cnt = 0`), while `source.ready` stays low and
+    software does not write (`Quiet`), with the FIFO settled: after `n·2^k` cycles (`k` = width of `flush_count`, any
+    phase of the counter) exactly the `n` oldest waiting characters are gone — one per `2^k` cycles, the rest in order —
+    and the timer is still expired. -/
+theorem uart_auto_flush_drop_rate (dtx drx : Nat) (rxWe : Bool) (T k n : Nat) (s : UartFlushSt) (ins : List UartTopIn)
+    (hq : ∀ i ∈ ins, Quiet i) (hc : s.cnt = 0) (hf : s.fc < 2 ^ k) (hs : FbSettled s.top.tx) (hn : ins.length = n * 2 ^ k) :
+    let s' := (uartFlush dtx drx rxWe T k).runFrom s ins
+    fbInflight s'.top.tx = (fbInflight s.top.tx).drop n ∧ s'.cnt = 0 ∧ FbSettled s'.top.tx := by
+  obtain ⟨h1, h2, h3⟩ := flush_quiet_run dtx drx rxWe T k ins s hq hc hs
+  rw [hn, popCount_mul _ _ _ hf] at h3
+  exact ⟨h3, h1, h2⟩
+
+/-- **uart_auto_flush_drains.**  A dead PHY never blocks software for ever: from any state (timer at most its reload
+    value `T`, at most `dtx` queued characters), after `T + 1 + (dtx+1)·2^k` or more cycles without `source.ready` and
+    without new writes the TX FIFO is empty — `txfull = 0`, `txempty = 1` — and the timer is expired. -/
+theorem uart_auto_flush_drains (dtx drx : Nat) (rxWe : Bool) (T k : Nat) (hd : 0 < dtx) (s : UartFlushSt)
+    (ins : List UartTopIn) (i : UartTopIn) (hq : ∀ i ∈ ins, Quiet i) (hc : s.cnt ≤ T) (hl : s.top.tx.q.length ≤ dtx)
+    (hlen : T + 1 + (dtx + 1) * 2 ^ k ≤ ins.length) :
+    let s' := (uartFlush dtx drx rxWe T k).runFrom s ins
+    fbInflight s'.top.tx = [] ∧ s'.cnt = 0 ∧
+    ((uartFlush dtx drx rxWe T k).out s' i).txfull = false ∧ ((uartFlush dtx drx rxWe T k).out s' i).txempty = true := by
+  intro s'
+  have h := flush_drains dtx drx rxWe T k s ins hq hc hl hlen
+  change s'.top.tx.q = [] ∧ s'.top.tx.readable = false ∧ s'.cnt = 0 at h
+  clear_value s'
+  obtain ⟨h1, h2, h3⟩ := h
+  have hf := uartTop_flags dtx drx s'.top i
+  refine ⟨by simp [fbInflight, h1, h2], h3, ?_, ?_⟩
+  · show (uartTopOut dtx drx s'.top i).txfull = false
+    rw [hf.1, h1]; simp; omega
+  · show (uartTopOut dtx drx s'.top i).txempty = true
+    rw [hf.2.1, h2]; rfl
+
+/-- Non-vacuity: three characters written, PHY dead; timeout 3, `flush_count` 1 bit: all three are gone after
+    `3 + 1 + 3·2` quiet cycles (here already after 6, the timer ran during the writes), not yet after 5.  And the **recovery defect** of the code that exists
+    (`If(timer.done, flush_ep.ready.eq(flush_count == 0))` overrides `source.ready`): when the PHY becomes ready in a
+    cycle with `timer.done` and `flush_count ≠ 0` it takes the character (`source.valid & source.ready`) but the FIFO
+    does not pop — the same character is offered again in the next cycle. -/
+example :
+    let m := uartFlush 2 2 false 3 1
+    let w : Nat → UartTopIn := fun d => ⟨true, d, false, false, false, 0, false⟩
+    let q : UartTopIn := ⟨false, 0, false, false, false, 0, false⟩
+    let r : UartTopIn := ⟨false, 0, false, false, false, 0, true⟩
+    let s := m.run [w 0x41, w 0x42, w 0x43]
+    fbInflight s.top.tx = [tokN 0x41, tokN 0x42, tokN 0x43] ∧
+    fbInflight (m.runFrom s (List.replicate 10 q)).top.tx = [] ∧
+    fbInflight (m.runFrom s (List.replicate 5 q)).top.tx ≠ [] ∧
+    (let s4 := m.run [w 0x41, w 0x42, q]
+     ((m.out s4 r).srcV, (m.out s4 r).srcD, (m.out (m.next s4 r) r).srcV, (m.out (m.next s4 r) r).srcD) =
+       (true, 0x41, true, 0x41)) := by decide
+
+/-- **bitslip_shift.**  `BitSlip(dw)`, every history: after two words `a`, `b` and a cycle with `value = v < dw`, the
+    output register holds bits `[v, v+dw)` of the window `b:a` — `(a >> v) | (b << (dw - v))` truncated to `dw` bits:
+    the input bit stream delayed and shifted by `v` bits.  For `value ≥ dw` (reachable when `dw` is not a power of two:
+    the `Case` has no default) the output register holds. -/
+theorem bitslip_shift (dw : Nat) (pre : List (Nat × Nat)) (a b : Nat × Nat) (i v : Nat) :
+    ((bitSlip dw).run (pre ++ [a, b] ++ [(i, v)])).o =
+      if v < dw then (trunc dw a.1 / 2 ^ v + trunc dw b.1 * 2 ^ (dw - v)) % 2 ^ dw
+      else ((bitSlip dw).run (pre ++ [a, b])).o := by
+  have hr := bitSlip_r_two dw pre a b
+  unfold Machine.run at *
+  rw [Machine.runFrom_append]
+  generalize (bitSlip dw).runFrom (bitSlip dw).init (pre ++ [a, b]) = s2 at *
+  show (if v < dw then slice v dw s2.r else s2.o) = _
+  by_cases hv : v < dw
+  · rw [if_pos hv, if_pos hv, hr, slice_two_words dw v _ _ (Nat.le_of_lt hv)]
+  · rw [if_neg hv, if_neg hv]
+
+example : ((bitSlip 4).run [(0b1010, 0), (0b0110, 0), (0, 1)]).o = 0b0101 ∧
+    ((bitSlip 3).run [(0b101, 0), (0b011, 0), (0, 2)]).o = 0b111 ∧
+    ((bitSlip 3).run [(0b101, 0), (0b011, 0), (0, 2), (0, 3)]).o = 0b111 := by decide
+
+/-- **displacer_places / chooser_displacer.**  `displacer` puts `signal` (w bits) into field `shift` (`n-1-shift` when
+    reversed) of the output, all other fields 0 — nothing at all for `shift ≥ n` — truncated to the output width; and
+    `chooser` with the same parameters on an `n·w`-bit word reads that field back. -/
+theorem displacer_places (w n : Nat) (rev : Bool) (wo signal shift : Nat) :
+    displacer w n rev wo signal shift =
+      if shift < n then trunc wo (trunc w signal * 2 ^ (w * (if rev then n - 1 - shift else shift))) else 0 :=
+  displacer_closed w n rev wo signal shift
+
+theorem chooser_displacer (w n : Nat) (rev : Bool) (signal shift : Nat) (hs : shift < n) :
+    chooser (n * w) w n rev (displacer w n rev (n * w) signal shift) shift = trunc w signal := by
+  rw [displacer_closed, if_pos hs]
+  unfold chooser
+  simp only [hs, if_true, trunc_trunc]
+  have hp : (if rev then n - 1 - shift else shift) < n := by cases rev <;> simp <;> omega
+  generalize (if rev = true then n - 1 - shift else shift) = p at hp
+  have hlt : trunc w signal * 2 ^ (w * p) < 2 ^ (n * w) := by
+    have h1 : trunc w signal < 2 ^ w := trunc_lt w signal
+    have h2 : 2 ^ w * 2 ^ (w * p) ≤ 2 ^ (n * w) := by
+      rw [← Nat.pow_add]
+      apply Nat.pow_le_pow_right (by omega)
+      rw [Nat.mul_comm n w, show w + w * p = w * (p + 1) by rw [Nat.mul_succ, Nat.add_comm]]
+      exact Nat.mul_le_mul_left _ hp
+    exact Nat.lt_of_lt_of_le (Nat.mul_lt_mul_of_pos_right h1 (Nat.two_pow_pos _)) h2
+  rw [trunc_of_lt hlt]
+  unfold slice
+  rw [Nat.mul_comm p w, Nat.mul_div_cancel _ (Nat.two_pow_pos _)]
+  exact trunc_trunc w signal
+
+example : displacer 4 3 true 12 0xA 0 = 0xA00 ∧ chooser 12 4 3 true 0xA00 0 = 0xA ∧ displacer 4 3 false 12 0xA 3 = 0 ∧
+    chooser 12 4 3 false 0xCBA 3 = 0xC ∧ split 7 0b1011101 [2, 0, 3, 1] = [1, 0, 7, 0] := by decide
+
+/-- **phy_mux_routes.**  `RS232PHYMultiplexer` over `n` virtual PHYs: the selected one is connected to the real PHY in
+    both directions; every other one sees `sink.ready = 1` (never stalled) and `source.valid = 0`; for `sel ≥ n`
+    (possible when `n` is not a power of two — the `Case` has no default) nothing is connected: the real PHY sees
+    `sink.valid = 0` and `source.ready = 0`. -/
+theorem phy_mux_routes (i : PhyMuxIn) :
+    (∀ c, i.chans[i.sel]? = some c →
+      (phyMux i).srcRdy = c.srcRdy ∧ (phyMux i).sinkV = c.sinkV ∧ (phyMux i).sinkD = c.sinkD % 256 ∧
+      (phyMux i).chans[i.sel]? = some ⟨i.srcV, i.srcD % 256, i.sinkRdy⟩) ∧
+    (∀ n, n < i.chans.length → n ≠ i.sel → (phyMux i).chans[n]? = some ⟨false, 0, true⟩) ∧
+    (i.chans.length ≤ i.sel → (phyMux i).srcRdy = false ∧ (phyMux i).sinkV = false ∧
+      ∀ c ∈ (phyMux i).chans, c = ⟨false, 0, true⟩) := by
+  refine ⟨fun c hc => ?_, fun n hn hne => ?_, fun hge => ?_⟩
+  · have hlt : i.sel < i.chans.length := by
+      rcases Nat.lt_or_ge i.sel i.chans.length with h | h
+      · exact h
+      · rw [List.getElem?_eq_none h] at hc; cases hc
+    have hget : i.chans[i.sel] = c := by rw [List.getElem?_eq_getElem hlt] at hc; exact Option.some.inj hc
+    simp [phyMux, hlt, hget]
+  · simp [phyMux, hn, hne, phyChanIdle]
+  · have hnone : i.chans[i.sel]? = none := List.getElem?_eq_none hge
+    refine ⟨by simp [phyMux, hnone], by simp [phyMux, hnone], ?_⟩
+    intro c hc
+    simp only [phyMux, List.mem_map, List.mem_range] at hc
+    obtain ⟨n, hn, rfl⟩ := hc
+    have : n ≠ i.sel := by omega
+    simp [this, phyChanIdle]
+
+/-- **uart_mux_routes.**  `UARTMultiplexer`: `uart.tx` is the selected UART's `tx`, only the selected UART's `rx`
+    follows `uart.rx` (the others read 0); for `sel ≥ n` nothing is connected (`uart.tx = 0`: a break on the line). -/
+theorem uart_mux_routes (sel : Nat) (rx : Bool) (txs : List Bool) :
+    (uartMux sel rx txs).1 = txs.getD sel false ∧
+    (∀ n, n < txs.length → (uartMux sel rx txs).2[n]? = some (n == sel && rx)) ∧
+    (txs.length ≤ sel → (uartMux sel rx txs).1 = false ∧ ∀ b ∈ (uartMux sel rx txs).2, b = false) := by
+  refine ⟨rfl, fun n hn => by simp [uartMux, hn], fun hge => ⟨by simp [uartMux, List.getD, List.getElem?_eq_none hge], ?_⟩⟩
+  intro b hb
+  simp only [uartMux, List.mem_map, List.mem_range] at hb
+  obtain ⟨n, hn, rfl⟩ := hb
+  have : n ≠ sel := by omega
+  simp [this]
+
+/-- **phy_model_wires.**  `RS232PHYModel`: the stream pair and the pads are wired straight through, both ways. -/
+theorem phy_model_wires (i : PhyModelIn) :
+    phyModel i = ⟨i.sinkV, i.sinkD % 256, i.padSrcRdy, i.padSinkV, i.padSinkD % 256, i.srcRdy⟩ := rfl
+
+example : (phyMux ⟨1, true, 0x5a, true, [⟨true, 1, false⟩, ⟨true, 2, true⟩, ⟨false, 3, true⟩]⟩) =
+      ⟨true, true, 2, [⟨false, 0, true⟩, ⟨true, 0x5a, true⟩, ⟨false, 0, true⟩]⟩ ∧
+    (phyMux ⟨3, true, 0x5a, true, [⟨true, 1, true⟩, ⟨true, 2, true⟩, ⟨true, 3, true⟩]⟩).sinkV = false ∧
+    uartMux 1 true [false, true, false] = (true, [false, true, false]) ∧
+    uartMux 3 true [true, true, true] = (false, [false, false, false]) := by decide
+
+/-- Why `spi_link_mosi` asks for `cs_n = 1` in the start state: the `pads.cs_n` register of `SPIMaster` resets to 0, so
+    right after reset chip select is asserted for one cycle although the master is idle (`done = 1`, no clock pulse);
+    a LiteX `SPISlave` on the other side answers with `start` in cycle 2 and `irq` in cycle 3 for a frame of length 0.
+    (Reproduced on the real cores by the harness; reported as an observation.) -/
+example :
+    let x : LinkIn := ⟨⟨false, 8, 0, true, false, false, 4, false⟩, 0⟩
+    let tr := (spiLink ⟨8, false⟩ 8).trace (List.replicate 5 x)
+    tr.map (fun o => (o.1.csN, o.1.done, o.2.start, o.2.irq, o.2.length)) =
+      [(false, true, false, false, 0), (true, true, false, false, 0), (true, true, true, false, 0),
+       (true, true, false, true, 0), (true, true, false, false, 0)] := by decide
+
+/-- **spi_link_served.**  The composition the link theorems speak about (`spiLink`) is, step for step and output for
+    output, the function the driver serves as `spilink` (`linkStep`), which the harness compares with the two real cores
+    wired pad to pad. -/
+theorem spi_link_served (c : SpiCfg) (dw : Nat) (st : LinkSt) (x : LinkIn) :
+    (spiLink c dw).next st x = ⟨(linkStep c dw st.m st.s x.m x.tx).1.1, (linkStep c dw st.m st.s x.m x.tx).1.2⟩ ∧
+    (spiLink c dw).out st x = (linkStep c dw st.m st.s x.m x.tx).2 := ⟨rfl, rfl⟩
+
+/-! ## `Stream2Wishbone` (UARTBone / UARTWishboneBridge command FSM) — needs `import LitexProofs.Periph.Bone`
+
+  Model `LitexModel/Periph/Bone.lean`; `c.nB = data_width/8 = 2^c.dbW`, `c.nA = address_width/8 = 2^c.abW`,
+  `c.aw = 8*c.nA`, `c.adrW = c.aw - c.dbW` (lines of `wishbone.adr`), `c.t` the WaitTimer count.  The statements hold
+  for every `c` (all counter widths), in particular for the constructible data_width ∈ {16,32},
+  address_width ∈ {16,32,64} (`boneCfgOf`).  Schedules: a `Seg` is a wait (`pre`: the awaited signal is low, all
+  other inputs arbitrary) followed by the cycle `fire` in which it is high; `headCycles gc gl gas rest` = command
+  byte, length byte, address bytes, each with its own gap.  `boneObs c s ins` = (registers after `ins`, completed
+  wishbone accesses in order, (byte, last) pairs handed to the source in order), without FSM reset;
+  `bone_no_timeout` transfers this to the machine with the timer for `ins.length ≤ timer` (after the command byte
+  the timer holds `t`: the *whole rest of the command*, waits included, must fit into `t` cycles — the timer is not
+  an inter-byte timeout). -/
+
+/-- Write burst (cmd 1 = incrementing, 3 = fixed address), any gaps between the host's bytes, any ack delays:
+    from RECEIVE-CMD, after the command byte, a length `L` in 1..255, `address_width/8` address bytes (MSB first)
+    and `L` words each sent as `data_width/8` bytes (MSB first) followed by its bus cycle, the bridge has made
+    exactly the accesses `wrLog` (see `bone_write_access`: `L` writes, word `j` at `(base + j·incr) mod 2^aw`,
+    `dat_w` = the big-endian word, all byte lanes), has sent nothing to the source, and is back in RECEIVE-CMD. -/
+theorem bone_write_burst (c : BoneCfg) (s : BoneCore) (hs : s.fsm = .recvCmd) (gc gl : Seg) (gas : List Seg)
+    (ws : List WrWord) (hc : gc.waits (·.sinkValid)) (hcmd : gc.fire.sinkData = 1 ∨ gc.fire.sinkData = 3)
+    (hl : gl.waits (·.sinkValid)) (hL1 : ws ≠ []) (hL : ws.length = gl.fire.sinkData) (hL2 : gl.fire.sinkData ≤ 255)
+    (ha : SinkSegs gas) (hal : gas.length = c.nA) (hok : ∀ w ∈ ws, w.ok c) :
+    ∃ f, boneObs c s (headCycles gc gl gas (wrCycles ws))
+           = (f, wrLog c (gc.fire.sinkData == 1) (beVal (bytesOf gas)) (ws.map (bytesOf ·.bytes)), []) ∧
+         f.fsm = .recvCmd ∧ (boneCoreOut c f).sinkReady = true :=
+  let ⟨f, h1, h2⟩ := write_command c s hs gc gl gas ws hc hcmd hl hL1 hL hL2 ha hal hok
+  ⟨f, h1, h2, (out_recvCmd c f h2).1⟩
+
+/-- The accesses of a write burst: as many as words, access `j` is a write of the big-endian value of the bytes
+    of word `j` at `(base + j·incr) mod 2^address_width` (shown on the `adrW` address lines), all lanes selected. -/
+theorem bone_write_access (c : BoneCfg) (incr : Bool) (words : List (List Nat)) (base : Nat) :
+    (wrLog c incr (base % 2 ^ c.aw) words).length = words.length ∧
+    ∀ j (h : j < words.length), (wrLog c incr (base % 2 ^ c.aw) words)[j]? =
+      some { we := true, adr := ((base + j * b2n incr) % 2 ^ c.aw) % 2 ^ c.adrW, datW := beVal words[j],
+             sel := 2 ^ c.nB - 1 } :=
+  ⟨wrLog_length c incr words _, fun j h => wrLog_get c incr words base j h⟩
+
+/-- Read burst (cmd 2 = incrementing, 4 = fixed), any gaps, ack delays and source stalls: exactly `L` read
+    accesses `rdLog` (see `bone_read_access`); after each the word read goes out on the source, most significant
+    byte first, `last` exactly on the final byte of the final word (`rdSrc`, `bone_read_bytes`); then RECEIVE-CMD. -/
+theorem bone_read_burst (c : BoneCfg) (s : BoneCore) (hs : s.fsm = .recvCmd) (gc gl : Seg) (gas : List Seg)
+    (ws : List RdWord) (hc : gc.waits (·.sinkValid)) (hcmd : gc.fire.sinkData = 2 ∨ gc.fire.sinkData = 4)
+    (hl : gl.waits (·.sinkValid)) (hL1 : ws ≠ []) (hL : ws.length = gl.fire.sinkData) (hL2 : gl.fire.sinkData ≤ 255)
+    (ha : SinkSegs gas) (hal : gas.length = c.nA) (hok : ∀ w ∈ ws, w.ok c) :
+    ∃ f, boneObs c s (headCycles gc gl gas (rdCycles ws))
+           = (f, rdLog c (gc.fire.sinkData == 2) (beVal (bytesOf gas)) ws.length,
+                 rdSrc c.nB (ws.map (·.bus.fire.datR))) ∧
+         f.fsm = .recvCmd ∧ (boneCoreOut c f).sinkReady = true :=
+  let ⟨f, h1, h2⟩ := read_command c s hs gc gl gas ws hc hcmd hl hL1 hL hL2 ha hal hok
+  ⟨f, h1, h2, (out_recvCmd c f h2).1⟩
+
+theorem bone_read_access (c : BoneCfg) (incr : Bool) (L base : Nat) :
+    (rdLog c incr (base % 2 ^ c.aw) L).length = L ∧
+    ∀ j, j < L → (rdLog c incr (base % 2 ^ c.aw) L)[j]? =
+      some { we := false, adr := ((base + j * b2n incr) % 2 ^ c.aw) % 2 ^ c.adrW, datW := 0, sel := 2 ^ c.nB - 1 } :=
+  ⟨rdLog_length c incr L _, fun j h => rdLog_get c incr L base j h⟩
+
+/-- The bytes of one word on the source: byte `k` is bits `8(nB-1-k) …` of the word (MSB first); `last` only on
+    byte `nB-1` of the final word. -/
+theorem bone_read_bytes (nB d : Nat) (ds : List Nat) :
+    rdSrc nB (d :: ds) = ((List.range nB).map fun k =>
+      ((d / 256 ^ (nB - 1 - k)) % 256, (k == nB - 1) && ds.isEmpty)) ++ rdSrc nB ds := by
+  simp [rdSrc, sendBytes_eq]
+
+/-- Any other command byte: after the address bytes the bridge is back in RECEIVE-CMD and has touched neither
+    the bus nor the source. -/
+theorem bone_bad_cmd (c : BoneCfg) (s : BoneCore) (hs : s.fsm = .recvCmd) (gc gl : Seg) (gas : List Seg)
+    (hc : gc.waits (·.sinkValid))
+    (hcmd : gc.fire.sinkData ≠ 1 ∧ gc.fire.sinkData ≠ 2 ∧ gc.fire.sinkData ≠ 3 ∧ gc.fire.sinkData ≠ 4)
+    (hl : gl.waits (·.sinkValid)) (ha : SinkSegs gas) (hal : gas.length = c.nA) :
+    ∃ f, boneObs c s (headCycles gc gl gas []) = (f, [], []) ∧ f.fsm = .recvCmd :=
+  bad_command c s hs gc gl gas hc hcmd hl ha hal
+
+/-- No timeout: for every input sequence no longer than the current timer count the machine with the timer
+    behaves as the FSM without reset (outputs are functions of the registers).  In RECEIVE-CMD the timer is
+    reloaded with `t`, and it never exceeds `t`. -/
+theorem bone_no_timeout (c : BoneCfg) (ins : List BoneIn) (s : BoneSt) (h : ins.length ≤ s.timer)
+    (ht : s.timer ≤ c.t) : ((bone c).runFrom s ins).core = boneCoreRun c s.core ins :=
+  no_timeout c ins s h ht
+
+/-- Never stuck: from ANY state (any registers, any timer count `n`) and under ANY inputs the FSM is in
+    RECEIVE-CMD at least once within `n + 1` cycles; in RECEIVE-CMD the timer is reloaded with `t`, and `n ≤ t` is
+    preserved by every step — so a machine started from reset is never outside RECEIVE-CMD for more than `t + 1`
+    consecutive cycles. -/
+theorem bone_never_stuck (c : BoneCfg) (s : BoneSt) (ins : List BoneIn) (hlen : s.timer + 1 ≤ ins.length) :
+    (∃ k, k ≤ s.timer + 1 ∧ ((bone c).runFrom s (ins.take k)).core.fsm = .recvCmd) ∧
+    (∀ i, s.core.fsm = .recvCmd → (boneNext c s i).timer = c.t) ∧
+    (∀ i, s.timer ≤ c.t → (boneNext c s i).timer ≤ c.t) :=
+  ⟨never_stuck c s.timer s ins rfl hlen, fun i h => timer_reload c s i h, fun i h => timer_le c s i h⟩
+
+section BoneExamples
+/-- data_width = 16, address_width = 16, t = 12. -/
+private def boneExCfg : BoneCfg := { dbW := 1, abW := 1, t := 12 }
+private def boneExB (b : Nat) : BoneIn := { sinkValid := true, sinkData := b, sourceReady := false, ack := false, datR := 0 }
+private def boneExIdle : BoneIn := { sinkValid := false, sinkData := 0, sourceReady := false, ack := false, datR := 0 }
+private def boneExAck (d : Nat) : BoneIn := { sinkValid := false, sinkData := 0, sourceReady := false, ack := true, datR := d }
+private def boneExRdy : BoneIn := { sinkValid := false, sinkData := 0, sourceReady := true, ack := false, datR := 0 }
+
+/-- Non-vacuity (write): cmd 1, length 2, address 0xFFFF (wraps), words 0x1234 and 0xABCD, with a gap and an
+    ack delay: two writes at 0x7FFF (15 address lines) and 0x0000. -/
+example : boneObs boneExCfg boneCoreInit
+    [boneExB 1, boneExIdle, boneExB 2, boneExB 0xFF, boneExB 0xFF, boneExB 0x12, boneExIdle, boneExB 0x34, boneExIdle, boneExAck 0, boneExB 0xAB, boneExB 0xCD, boneExAck 0]
+    = ({ boneCoreInit with cmd := 1, incr := true, length := 2, address := 1, data := 0xABCD, wc := 2 },
+       [{ we := true, adr := 0x7FFF, datW := 0x1234, sel := 3 }, { we := true, adr := 0, datW := 0xABCD, sel := 3 }],
+       []) := by decide
+
+/-- Non-vacuity (read, fixed address): cmd 4, length 2, address 0x0102: two reads at 0x0102, the words go out MSB
+    first, `last` on the fourth byte only. -/
+example : (boneObs boneExCfg boneCoreInit
+    [boneExB 4, boneExB 2, boneExB 1, boneExB 2, boneExAck 0xBEEF, boneExRdy, boneExIdle, boneExRdy, boneExIdle, boneExAck 0x1234, boneExRdy, boneExRdy]).2
+    = ([{ we := false, adr := 0x0102, datW := 0, sel := 3 }, { we := false, adr := 0x0102, datW := 0, sel := 3 }],
+       [(0xBE, false), (0xEF, false), (0x12, false), (0x34, true)]) := by decide
+
+/-- Non-vacuity (bad command 7): back in RECEIVE-CMD after the address, nothing on the bus. -/
+example : boneObs boneExCfg boneCoreInit [boneExB 7, boneExB 1, boneExB 0, boneExB 0]
+    = ({ boneCoreInit with cmd := 7, length := 1 }, [], []) := by decide
+
+/-- Negative fact (simulator semantics of `words_count == length - 1`): with `length = 0` a write burst does not
+    end after any word — here after the first word the FSM asks for more data (RECEIVE-DATA) instead of returning
+    to RECEIVE-CMD, and the complete machine only returns to RECEIVE-CMD by the timeout, 13 = t + 1 cycles after the
+    command byte, whatever the host does (here: it keeps feeding words). -/
+example : (boneCoreRun boneExCfg boneCoreInit [boneExB 1, boneExB 0, boneExB 0, boneExB 0, boneExB 5, boneExB 6, boneExAck 0]).fsm = .recvData := by
+  decide
+
+private def boneExLen0 : List BoneIn :=
+  [boneExB 1, boneExB 0, boneExB 0, boneExB 0, boneExB 5, boneExB 6, boneExAck 0, boneExB 5, boneExB 6, boneExAck 0, boneExB 5, boneExB 6, boneExAck 0, boneExB 5]
+
+example : (List.range 13).all (fun k => ((bone boneExCfg).runFrom (boneInit boneExCfg) (boneExLen0.take (k + 1))).core.fsm != .recvCmd)
+    = true ∧ ((bone boneExCfg).runFrom (boneInit boneExCfg) boneExLen0).core.fsm = .recvCmd := by decide
+
+/-- The byte offered in the cycle after the timeout is accepted (`sink.ready = 1`) but does not start a command:
+    `done` is still asserted in that cycle. -/
+example : let s := (bone boneExCfg).runFrom (boneInit boneExCfg) boneExLen0
+    (boneCoreOut boneExCfg s.core).sinkReady = true ∧ s.timer = 0 ∧ (boneNext boneExCfg s (boneExB 1)).core.fsm = .recvCmd := by
+  decide
+
+/-- The same happens after a command that completes normally in exactly `t` cycles after its command byte (here a
+    one-word write whose ack arrives in cycle 12 = t): the write is done, the FSM is in RECEIVE-CMD, but the timer has
+    reached 0 in the same cycle, so the first byte of an immediately following command is accepted and lost. -/
+example : let s := (bone boneExCfg).runFrom (boneInit boneExCfg)
+                     ([boneExB 1, boneExB 1, boneExB 0, boneExB 0, boneExB 5, boneExB 6] ++ List.replicate 6 boneExIdle ++ [boneExAck 0])
+    s.core.fsm = .recvCmd ∧ s.core.wc = 1 ∧ s.timer = 0 ∧ (boneCoreOut boneExCfg s.core).sinkReady = true ∧
+    (boneNext boneExCfg s (boneExB 2)).core.fsm = .recvCmd ∧ (boneNext boneExCfg s (boneExB 2)).core.cmd = 2 := by
+  decide
+
+/-- Non-vacuity of `bone_no_timeout` / `bone_never_stuck`: an abandoned command (the host stops after the length
+    byte) is left after exactly t + 1 = 13 cycles. -/
+example : ((bone boneExCfg).runFrom (boneInit boneExCfg) ([boneExB 1, boneExB 2] ++ List.replicate 11 boneExIdle)).core.fsm = .recvAddr ∧
+    ((bone boneExCfg).runFrom (boneInit boneExCfg) ([boneExB 1, boneExB 2] ++ List.replicate 12 boneExIdle)).core.fsm = .recvCmd := by
+  decide
+end BoneExamples
+
+/-! ## `split`, a polling writer on a dead PHY, `UARTCrossover` (lemmas in `LitexProofs/Periph/Glue2.lean`) -/
+
+/-- **split_concat.**  `split(v, *counts)` on a `w`-bit `v` with `sum(counts) ≤ w` (the real function just slices
+    consecutive ranges; bits above the sum are left over): the parts, part `j` placed at bit offset `sum(counts[:j])`
+    (`cat` of (count, part) pairs), give back `v mod 2^sum(counts)` — all of `v` when the counts add up to `w`; there is
+    one part per count, part `j < 2^counts[j]`, and a zero count gives 0 (`None` in the real code). -/
+theorem split_concat (w v : Nat) (counts : List Nat) (hv : v < 2 ^ w) (hs : counts.sum ≤ w) :
+    cat (counts.zip (split w v counts)) = v % 2 ^ counts.sum ∧
+    (counts.sum = w → cat (counts.zip (split w v counts)) = v) ∧
+    (split w v counts).length = counts.length ∧
+    (∀ (j p c : Nat), (split w v counts)[j]? = some p → counts[j]? = some c → p < 2 ^ c ∧ (c = 0 → p = 0)) := by
+  have h := splitFrom_cat w (trunc w v) 0 counts (by omega)
+  rw [trunc_of_lt hv] at h
+  have e : cat (counts.zip (split w v counts)) = v % 2 ^ counts.sum := by
+    unfold split; rw [trunc_of_lt hv, h]; simp [slice]
+  refine ⟨e, fun hw => by rw [e, hw, Nat.mod_eq_of_lt hv], splitFrom_length _ _ _ _, fun j p c hp hc => ?_⟩
+  have hlt := splitFrom_part_lt w (trunc w v) 0 counts j p c hp hc
+  exact ⟨hlt, fun h0 => by subst h0; omega⟩
+
+example : split 7 0b1011101 [2, 0, 3, 1] = [1, 0, 7, 0] ∧
+    cat ([2, 0, 3, 1].zip (split 7 0b1011101 [2, 0, 3, 1])) = 0b011101 ∧
+    cat ([2, 0, 3, 2].zip (split 7 0b1011101 [2, 0, 3, 2])) = 0b1011101 := by decide
+
+/-- **uart_auto_flush_unblocks.**  PHY dead (`source.ready` low in every cycle), software doing anything it likes
+    (writing whenever it sees `txfull = 0`, or blindly): once the timeout has elapsed (`n ≥` the timer's count, at most
+    `T` from any reachable state) every window of `2^k + 1` consecutive cycles contains one with `txfull = 0` — `txfull`
+    is never high for more than `2^k` consecutive cycles, a polling writer is never blocked for ever. -/
+theorem uart_auto_flush_unblocks (dtx drx : Nat) (rxWe : Bool) (T k : Nat) (hd : 0 < dtx) (s : UartFlushSt)
+    (f : Nat → UartTopIn) (hf : ∀ t, (f t).srcRdy = false) (hfc : s.fc < 2 ^ k) (n : Nat) (hn : s.cnt ≤ n) :
+    ∃ j, j ≤ 2 ^ k ∧
+      ((uartFlush dtx drx rxWe T k).out (runFn (uartFlush dtx drx rxWe T k) s f (n + j)) (f (n + j))).txfull = false :=
+  flush_unblocks dtx drx rxWe T k hd s f hf hfc n hn
+
+/-- Non-vacuity (timeout 3, `flush_count` 2 bits, depth 2, software writing in every cycle): `txfull` is high in cycles
+    3–4, 6–8, 10–12 and low in cycles 5 and 9 — runs of at most `2^k - 1 = 3` here, never more than `2^k`. -/
+example :
+    let m := uartFlush 2 2 false 3 2
+    let f : Nat → UartTopIn := fun t => ⟨true, 0x41 + t, false, false, false, 0, false⟩
+    (List.range 14).map (fun t => (m.out (runFn m m.init f t) (f t)).txfull) =
+      [false, false, false, true, true, false, true, true, true, false, true, true, true, false] := by decide
+
+/-- **uart_crossover_no_loss.**  `UARTCrossover` (main `UART(dtx, drx, rx_fifo_rx_we)`, `xover = UART(1, 16, True)`,
+    cross-connected), every history of software accesses on both CSR sides from reset:
+      * main → xover: the characters written to the main `rxtx` while its `txfull = 0` = the characters taken from the
+        xover `rxtx` ++ what waits in the xover RX FIFO ++ what waits in the main TX FIFO — in order, nothing lost or
+        duplicated, at most `16 + 1 + dtx + 1` in flight;
+      * xover → main: the characters written to the xover `rxtx` while its `txfull = 0` = the characters taken from the
+        main `rxtx` ++ what waits in the main RX FIFO ++ the xover TX register (`SyncFIFO(depth=1)` = `PipeValid`). -/
+theorem uart_crossover_no_loss (dtx drx : Nat) (rxWe : Bool) (ins : List (CsrIn × CsrIn)) :
+    let m := uartCrossover dtx drx rxWe
+    let s := m.run ins
+    xoWritten dtx drx rxWe m.init ins =
+      xoRead dtx drx rxWe m.init ins ++ dataOf (fbInflight s.xrx) ++ dataOf (fbInflight s.main.tx) ∧
+    s.main.tx.q.length ≤ dtx ∧ s.xrx.q.length ≤ 16 ∧
+    xoWrittenX dtx drx rxWe m.init ins =
+      xoReadM dtx drx rxWe m.init ins ++ dataOf (fbInflight s.main.rx) ++ dataOf (pvInflight s.xtx) ∧
+    s.main.rx.q.length ≤ drx := by
+  intro m s
+  have h1 := xover_run dtx drx rxWe ins m.init (by simp [m, uartCrossover, xoverInit, syncFifoBuffered])
+    (by simp [m, uartCrossover, xoverInit, syncFifoBuffered])
+  have h2 := xover_run_back dtx drx rxWe ins m.init (by simp [m, uartCrossover, xoverInit, syncFifoBuffered])
+    (by simp [m, uartCrossover, xoverInit, pipeValid, zTokN])
+  refine ⟨?_, h1.2.1, h1.2.2, ?_, h2.2.1⟩
+  · have := h1.1
+    have e0 : dataOf (fbInflight m.init.xrx) ++ dataOf (fbInflight m.init.main.tx) = [] := rfl
+    rw [e0, List.nil_append] at this
+    exact this
+  · have := h2.1
+    have e0 : dataOf (fbInflight m.init.main.rx) ++ dataOf (pvInflight m.init.xtx) = [] := rfl
+    rw [e0, List.nil_append] at this
+    exact this
+
+example :
+    let m := uartCrossover 2 2 false
+    let wr : Nat → Nat → CsrIn × CsrIn := fun a b => (⟨true, a, false, false⟩, ⟨true, b, false, false⟩)
+    let rd : CsrIn × CsrIn := (⟨false, 0, false, true⟩, ⟨false, 0, true, false⟩)
+    let idle : CsrIn × CsrIn := (⟨false, 0, false, false⟩, ⟨false, 0, false, false⟩)
+    let ins := [wr 0x41 0x61, wr 0x42 0x62, wr 0x43 0x63, idle, idle, idle, rd, idle, rd]
+    xoWritten 2 2 false m.init ins = [0x41, 0x42, 0x43] ∧ xoRead 2 2 false m.init ins = [0x41, 0x42] ∧
+    (xoWrittenX 2 2 false m.init ins, xoReadM 2 2 false m.init ins) = ([0x61, 0x62, 0x63], [0x61, 0x62]) := by decide
 
 end Litex.C19
